@@ -22,7 +22,7 @@ enum { DELAY_begin = 0, DELAY_run, DELAY_pass };
 #define NO_OVERFLOW(b, e) 1
 #endif
 
-#if !defined(PFOR) && !defined(ND)
+#if !defined(PFOR) && !defined(ND) && !defined(TASKS)
 /* ------------------------------------------------------------------ blocked_range split */
 Value IN_b, IN_e; size_t IN_g;
 static void mk_range(struct blocked_range *r) {
@@ -137,6 +137,11 @@ static bool rv_inv(struct range_vector *v, Value B, Value E, size_t G) {
     }
     return hi == B;
 }
+/* the contract of split_to_fill: precondition rv_inv(v,B,E,G) && size >= 1; postcondition = the three conjuncts below (proved for every pool shape by the jobs rv.split_to_fill.t*.s*,
+   assumed by the contract stub of the job wb.*) */
+#define RV_SPLIT_POST_1(v, B, E, G) rv_inv((v), (B), (E), (G))
+#define RV_SPLIT_POST_2(v, size0) ((v)->my_size >= (size0) && (v)->my_size <= MaxCapacity)
+#define RV_SPLIT_POST_3(v, maxd) ((v)->my_size == MaxCapacity || !range_vector_is_divisible((v), (maxd)))
 unsigned char IN_op, IN_maxd;
 void h_rv_ops(void) {
     struct range_vector v; Value B = IN_b = nondet_size_t(), E = IN_e = nondet_size_t(); size_t G = IN_g = nondet_size_t();
@@ -157,21 +162,21 @@ void h_rv_ops(void) {
     depth_t size0 = v.my_size;
     if (op == 0) {
         range_vector_split_to_fill(&v, maxd);
-        OBLIGATION(rv_inv(&v, B, E, G), "C05.pool: split_to_fill keeps the pool an ordered tiling of the same range");
-        OBLIGATION(v.my_size >= size0 && v.my_size <= MaxCapacity, "C05.pool: split_to_fill never exceeds the capacity");
-        OBLIGATION(v.my_size == MaxCapacity || !range_vector_is_divisible(&v, maxd), "C05.pool: fills until full or the back is not divisible / max depth reached");
+        OBLIGATION(RV_SPLIT_POST_1(&v, B, E, G), "C05.pool: split_to_fill keeps the pool an ordered tiling of the same range");
+        OBLIGATION(RV_SPLIT_POST_2(&v, size0), "C05.pool: split_to_fill never exceeds the capacity");
+        OBLIGATION(RV_SPLIT_POST_3(&v, maxd), "C05.pool: fills until full or the back is not divisible / max depth reached");
     } else if (op == 1) {
         struct blocked_range *bk = range_vector_back(&v);
         Value b = bk->my_begin, e = bk->my_end;
         OBLIGATION(b == B && b < e, "C05.pool: back() is the leftmost, non-empty part");
         range_vector_pop_back(&v);
-        OBLIGATION(rv_inv(&v, e, E, G), "C05.pool: pop_back removes exactly the back range");
+        OBLIGATION(rv_inv(&v, e, E, G) && v.my_size == size0 - 1, "C05.pool: pop_back removes exactly the back range");
     } else {
         struct blocked_range *fr = range_vector_front(&v);
         Value b = fr->my_begin, e = fr->my_end;
         OBLIGATION(e == E && b < e, "C05.pool: front() is the rightmost, non-empty part");
         range_vector_pop_front(&v);
-        OBLIGATION(rv_inv(&v, B, b, G), "C05.pool: pop_front removes exactly the front range");
+        OBLIGATION(rv_inv(&v, B, b, G) && v.my_size == size0 - 1, "C05.pool: pop_front removes exactly the front range");
     }
     VACUITY_END();
 }
@@ -213,6 +218,34 @@ static void part_offer_work(struct start_for *st, struct blocked_range *range, s
 #define PART_WORK_BALANCE(p, st, r) start_run_body(st, r)
 #define LOOP_base_execute_1 __CPROVER_assigns(range->my_end, g_hi, g_nsplits, self->my_divisor, self->my_max_depth, g_right_part) \
         __CPROVER_loop_invariant(EXEC_INV && (size_t)(g_hi - g_B0) > g_G) __CPROVER_decreases((size_t)(g_hi - g_B0))
+#elif defined(PROP_PART)
+/* partition_type_base::execute for the proportional partitioners (static: factor 1, affinity: factor 16).  The range is split by the CONTRACT of the proportional splitting
+   constructor (job br.propsplit: halves adjacent, split point strictly inside); the partition object by the real proportional_mode::do_split. */
+#define PART_IS_DIVISIBLE(p) proportional_is_divisible(p)
+#define PART_SPLIT_T struct proportional_split
+#define PART_GET_SPLIT(p) proportional_get_split(p)
+#define PROP_OK(p) ((p)->my_divisor % PART_FACTOR == 0 || (p)->my_divisor <= PART_FACTOR)
+struct part g_right_part;
+static void part_offer_work(struct start_for *st, struct blocked_range *range, struct part *self, struct proportional_split *s) {
+    OBLIGATION(blocked_range_is_divisible(range), "C05.exec: a range that is not divisible is never split");
+    OBLIGATION(self->my_divisor % PART_FACTOR == 0 && self->my_divisor > PART_FACTOR, "C05.exec: a proportional split is only made while the divisor is a multiple of factor and larger than factor (the precondition under which part.proportional.* / aff.split are proved: the proportion then has right >= 1)");
+    OBLIGATION(s->my_right >= 1 && s->my_right <= s->my_left && s->my_left - s->my_right <= 1, "C05.exec: the proportion handed to the range is 1 <= right <= left <= right+1");
+    Value m = nondet_size_t(); __CPROVER_assume(range->my_begin < m && m < range->my_end);      /* br.propsplit */
+    OBLIGATION(range->my_end == g_hi, "C05.exec: offered chunk is the top part of what was left");
+    range->my_end = m; g_hi = m; g_nsplits++;
+    g_right_part = *self; g_right_part.my_divisor = proportional_do_split(&g_right_part, self, s);   /* proportional_mode(src, split_obj) */
+    OBLIGATION(g_right_part.my_divisor % PART_FACTOR == 0 && g_right_part.my_divisor >= PART_FACTOR, "C05.exec: the right task starts with a positive multiple of factor");
+}
+#define PART_OFFER_WORK(st, r, p, s) part_offer_work(st, r, p, s)
+static void part_work_balance(struct part *self, struct start_for *st, struct blocked_range *range) {
+    OBLIGATION(!blocked_range_is_divisible(range) || self->my_divisor <= PART_FACTOR, "C05.exec: the range-pool phase (demand splits, which halve the divisor) is entered only with an exhausted partition or an indivisible range: divisors above factor are always multiples of factor");
+    start_run_body(st, range);
+}
+#define PART_WORK_BALANCE(p, st, r) part_work_balance(p, st, r)
+#define LOOP_base_execute_1 __CPROVER_assigns(range->my_end, g_hi, g_nsplits, self->my_divisor, g_right_part) \
+        __CPROVER_loop_invariant(range->my_begin == g_B0 && range->my_end == g_hi && range->my_grainsize == g_G && g_B0 < g_hi && g_hi <= g_E0 \
+            && g_G < (size_t)(g_hi - g_B0) && self->my_divisor > PART_FACTOR && self->my_divisor % PART_FACTOR == 0)   /* a do-while: the body runs under the invariant alone */ \
+        __CPROVER_decreases((size_t)(g_hi - g_B0))
 #else
 #define PART_IS_DIVISIBLE(p) 0
 #define PART_SPLIT_T int
@@ -222,34 +255,103 @@ static void part_offer_work(struct start_for *st, struct blocked_range *range, s
 #define LOOP_base_execute_1
 #endif
 static bool STUB_is_cancelled(void) { return nondet_bool(); }
-#ifdef WB
-/* work_balance: ghost accounting over the pool: everything handed out (run or offered) so far is [g_B0,g_lo) U [g_top,g_E0) */
-Value g_lo, g_top;
+/* ---- abstract view of a range pool.  alpha(v) = (size, end of the back piece, begin of the front piece); the pool tiles [lo,top), back piece = [lo,be), front piece = [fb,top).
+   Job rv.abstraction proves on the real accessors that every pool satisfying the representation invariant rv_inv has an abstract view satisfying AINV;
+   the jobs rv.ctor / rv.split_to_fill.* / rv.pop_back / rv.pop_front prove the concrete contracts {rv_inv(v,B,E,G), size>=1} op {rv_inv(v,B',E',G), size'} quoted at each abstract stub below.
+   The job wb.* then proves work_balance against the abstract contracts: its loop invariant is a formula over five scalars. */
+#define AINV(n, be, fb, lo, top) ((n) >= 1 && (n) <= MaxCapacity && (lo) < (be) && (be) <= (top) && (lo) <= (fb) && (fb) < (top) \
+    && ((n) == 1 ? ((be) == (top) && (fb) == (lo)) : ((be) <= (fb))) && ((n) != 2 || (be) == (fb)))
+void h_rv_abstraction(void) {
+    struct range_vector v; Value B = IN_b = nondet_size_t(), E = IN_e = nondet_size_t(); size_t G = IN_g = nondet_size_t();
+    __CPROVER_assume(rv_inv(&v, B, E, G));
+    OBLIGATION(range_vector_size(&v) == v.my_size && range_vector_empty(&v) == (v.my_size == 0), "C05.pool.abs: size() / empty() report the number of stored pieces");
+    if (v.my_size == 0) OBLIGATION(B == E, "C05.pool.abs: an empty pool covers nothing");
+    else {
+        struct blocked_range *bk = range_vector_back(&v), *fr = range_vector_front(&v);
+        OBLIGATION(bk->my_begin == B && fr->my_end == E && bk->my_grainsize == G && fr->my_grainsize == G, "C05.pool.abs: back() is the piece that starts at the bottom of the covered range, front() the piece that ends at its top; both carry the task's grainsize");
+        OBLIGATION(AINV(v.my_size, bk->my_end, fr->my_begin, B, E), "C05.pool.abs: pieces are non-empty and ordered: back ends at or before the begin of front; with one piece back == front == the whole; with two they are adjacent");
+    }
+    VACUITY_END();
+}
+#if defined(WBC)
+/* work_balance as a whole against the abstract pool.  Ghost: everything handed out so far (run or offered) is [g_B0,g_lo) U [g_top,g_E0); the pool (a_*) tiles [a_lo,a_top). */
+Value g_lo, g_top; bool g_exit_empty, g_exit_cancelled; unsigned long g_noffer;
+unsigned a_n; Value a_lo, a_top, a_be, a_fb; struct blocked_range a_back, a_front;
+static void a_fresh_pieces(void) { if (a_n >= 1) { a_be = nondet_size_t(); a_fb = nondet_size_t(); __CPROVER_assume(AINV(a_n, a_be, a_fb, a_lo, a_top)); } }
 static void wb_run_body(struct start_for *st, struct blocked_range *r) {
     OBLIGATION(r->my_begin < r->my_end, "C05.wb: the body is never given an empty range");
-    OBLIGATION(r->my_begin == g_lo, "C05.wb: the chunk run is the next not-yet-covered part from the bottom");
+    OBLIGATION(r->my_begin == g_lo, "C05.wb: the chunk run is the next not-yet-covered part from the bottom (no element twice, none skipped)");
+    OBLIGATION(r->my_end <= g_top, "C05.wb: the chunk run does not reach into what was offered to other tasks");
     g_lo = r->my_end; g_nrun++;
 }
-static void start_offer_work_range(struct start_for *st, struct blocked_range *r, depth_t d) {
+static void start_offer_work_range(struct start_for *st, struct blocked_range *r, depth_t d, void *ed) {
     OBLIGATION(r->my_begin < r->my_end, "C05.wb: an offered chunk is non-empty");
-    OBLIGATION(r->my_end == g_top, "C05.wb: the chunk offered is the topmost not-yet-covered part");
-    g_top = r->my_begin;
+    OBLIGATION(r->my_end == g_top, "C05.wb: the chunk offered is the topmost not-yet-covered part (no element twice, none skipped)");
+    OBLIGATION(r->my_begin >= g_lo, "C05.wb: the chunk offered does not reach into what this task has already run");
+    g_top = r->my_begin; g_noffer++;
 }
 #define start_run_body wb_run_body
+#ifdef AUTO_PART
+#define PART_CHECK_FOR_DEMAND(p) auto_check_for_demand(p, 0)
+#else
 #define PART_CHECK_FOR_DEMAND(p) dyn_check_for_demand(p, 0)
-#define S(k) range_pool.my_pool[(range_pool.my_tail + (k)) % MaxCapacity]
-#define SLOT_OK(k, hi) ((k) >= range_pool.my_size || (S(k).my_end == (hi) && S(k).my_begin < S(k).my_end && S(k).my_grainsize == g_G))
-#define LO(k, hi) ((k) < range_pool.my_size ? S(k).my_begin : (hi))
-#define WB_INV (range_pool.my_size >= 1 && range_pool.my_size <= MaxCapacity && range_pool.my_head < MaxCapacity && range_pool.my_tail < MaxCapacity \
-    && range_pool.my_head == (range_pool.my_tail + range_pool.my_size - 1) % MaxCapacity \
-    && SLOT_OK(0, g_top) && SLOT_OK(1, LO(0, g_top)) && SLOT_OK(2, LO(1, LO(0, g_top))) && SLOT_OK(3, LO(2, LO(1, LO(0, g_top)))) \
-    && SLOT_OK(4, LO(3, LO(2, LO(1, LO(0, g_top))))) && SLOT_OK(5, LO(4, LO(3, LO(2, LO(1, LO(0, g_top)))))) \
-    && SLOT_OK(6, LO(5, LO(4, LO(3, LO(2, LO(1, LO(0, g_top))))))) && SLOT_OK(7, LO(6, LO(5, LO(4, LO(3, LO(2, LO(1, LO(0, g_top)))))))) \
-    && LO(7, LO(6, LO(5, LO(4, LO(3, LO(2, LO(1, LO(0, g_top)))))))) == g_lo && g_B0 <= g_lo && g_lo < g_top && g_top <= g_E0)
-#define LOOP_work_balance_1 __CPROVER_assigns(range_pool, g_lo, g_top, g_nrun, self->my_divisor, self->my_max_depth, self->my_delay) __CPROVER_loop_invariant(WB_INV)
+#endif
+/* rv.ctor: {range non-empty} range_vector(range) {rv_inv(v, begin, end, grain), size == 1} */
+static void rvc_ctor(struct range_vector *v, struct blocked_range *r) {
+    __CPROVER_assert(r->my_begin < r->my_end, "C05.wb: the pool is started from a non-empty range (precondition of the pool contract)");
+    a_n = 1; a_lo = r->my_begin; a_top = r->my_end; a_be = a_top; a_fb = a_lo;
+    OBLIGATION(a_lo == g_lo && a_top == g_top && r->my_grainsize == g_G, "C05.wb: the pool starts as the task's whole range");
+}
+/* rv.split_to_fill.*: {rv_inv(v,B,E,G), size >= 1} split_to_fill(d) {rv_inv(v,B,E,G), size <= size' <= 8} */
+static void rvc_split_to_fill(struct range_vector *v, depth_t maxd) {
+    __CPROVER_assert(a_n >= 1, "C05.wb: split_to_fill is called on a non-empty pool (precondition of the pool contract)");
+    unsigned n = nondet_unsigned(); __CPROVER_assume(n >= a_n && n <= MaxCapacity); a_n = n; a_fresh_pieces();
+}
+/* rv.pop_back: {rv_inv(v,B,E,G), size >= 1, back() == [B,e)} pop_back() {rv_inv(v,e,E,G), size' == size-1} */
+static struct blocked_range *rvc_back(struct range_vector *v) {
+    __CPROVER_assert(a_n >= 1, "C05.wb: back() is called on a non-empty pool");
+    a_back.my_begin = a_lo; a_back.my_end = a_be; a_back.my_grainsize = g_G; return &a_back;
+}
+static void rvc_pop_back(struct range_vector *v) {
+    __CPROVER_assert(a_n >= 1, "C05.wb: pop_back() is called on a non-empty pool");
+    a_lo = a_be; a_n--; a_fresh_pieces();
+}
+/* rv.pop_front: {rv_inv(v,B,E,G), size >= 1, front() == [b,E)} pop_front() {rv_inv(v,B,b,G), size' == size-1} */
+static struct blocked_range *rvc_front(struct range_vector *v) {
+    __CPROVER_assert(a_n >= 1, "C05.wb: front() is called on a non-empty pool");
+    a_front.my_begin = a_fb; a_front.my_end = a_top; a_front.my_grainsize = g_G; return &a_front;
+}
+static depth_t rvc_front_depth(struct range_vector *v) { __CPROVER_assert(a_n >= 1, "C05.wb: front_depth() is called on a non-empty pool"); return nondet_uchar(); }
+static void rvc_pop_front(struct range_vector *v) {
+    __CPROVER_assert(a_n >= 1, "C05.wb: pop_front() is called on a non-empty pool");
+    a_top = a_fb; a_n--; a_fresh_pieces();
+}
+static depth_t rvc_size(struct range_vector *v) { return (depth_t)a_n; }
+static bool rvc_is_divisible(struct range_vector *v, depth_t maxd) { __CPROVER_assert(a_n >= 1, "C05.wb: is_divisible() is called on a non-empty pool"); return nondet_bool(); }   /* any answer: the tiling does not depend on it */
+static bool rvc_empty(struct range_vector *v) {
+    bool e = a_n == 0;
+    OBLIGATION(a_lo == g_lo && a_top == g_top, "C05.wb: after every step the pool holds exactly what has neither been run by this task nor offered to another (a piece run or offered is removed from the pool, and only that piece)");
+    g_exit_empty = e;
+    if (e) OBLIGATION(g_lo == g_top, "C05.wb: when the pool runs empty, the chunks run and the chunks offered cover the task's range completely");
+    return e;
+}
+static bool wbc_is_cancelled(void) { g_exit_cancelled = nondet_bool(); return g_exit_cancelled; }
+#define range_vector_ctor rvc_ctor
+#define range_vector_split_to_fill rvc_split_to_fill
+#define range_vector_back rvc_back
+#define range_vector_pop_back rvc_pop_back
+#define range_vector_front rvc_front
+#define range_vector_front_depth rvc_front_depth
+#define range_vector_pop_front rvc_pop_front
+#define range_vector_size rvc_size
+#define range_vector_is_divisible rvc_is_divisible
+#define range_vector_empty rvc_empty
+#define STUB_is_cancelled wbc_is_cancelled
+#define WB_INV (AINV(a_n, a_be, a_fb, a_lo, a_top) && a_lo == g_lo && a_top == g_top && g_B0 <= g_lo && g_top <= g_E0)
+#define LOOP_work_balance_1 __CPROVER_assigns(a_n, a_lo, a_top, a_be, a_fb, a_back, a_front, g_lo, g_top, g_nrun, g_noffer, g_exit_empty, g_exit_cancelled, self->my_divisor, self->my_max_depth, self->my_delay) __CPROVER_loop_invariant(WB_INV)
 #else
 #define PART_CHECK_FOR_DEMAND(p) 0
-static void start_offer_work_range(struct start_for *st, struct blocked_range *r, depth_t d) {}
+static void start_offer_work_range(struct start_for *st, struct blocked_range *r, depth_t d, void *ed) {}
 #define LOOP_work_balance_1
 #endif
 #include "execute.inc"
@@ -277,18 +379,1201 @@ void h_base_execute(void) {
     VACUITY_END();
 }
 #endif
-#ifdef WB
-void h_work_balance(void) {
+#ifdef PROP_PART
+void h_base_execute_prop(void) {
     struct blocked_range r; struct start_for st; struct part p; mk_part(&p);
     mk_exec(&r);
-    g_lo = g_B0; g_top = g_E0;
-    dyn_work_balance(&p, &st, &r);
-    /* on normal exit (not cancelled) everything is covered; on cancellation what was handed out is still a disjoint prefix/suffix */
-    OBLIGATION(g_B0 <= g_lo && g_lo <= g_top && g_top <= g_E0, "C05.wb: chunks handed out never overlap");
+    __CPROVER_assume(PROP_OK(&p));     /* root: a multiple of factor (aff.ctor); children of proportional splits: multiples (aff.split); children of demand splits: below factor (reset to 1 by check_being_stolen) */
+    base_execute(&p, &st, &r);
+    OBLIGATION(g_ran && g_nrun == 1 && g_run_b == g_B0 && g_run_e == g_hi, "C05.exec: offers + remaining work tile the original range (proportional partitioners)");
     VACUITY_END();
 }
 #endif
-#endif /* !PFOR && !ND */
+#ifdef WBC
+void h_work_balance_c(void) {
+    struct blocked_range r; struct start_for st; struct part p; mk_part(&p);
+    mk_exec(&r);
+    g_lo = g_B0; g_top = g_E0; g_exit_empty = g_exit_cancelled = false; g_noffer = 0;
+    dyn_work_balance(&p, &st, &r, NULL);
+    OBLIGATION(g_B0 <= g_lo && g_lo <= g_top && g_top <= g_E0, "C05.wb: what was run and what was offered never overlap");
+    OBLIGATION(g_lo == g_top || g_exit_cancelled, "C05.wb: unless the group is cancelled, work_balance returns only after every element of the task's range was run by this task or offered to exactly one other task");
+    VACUITY_END();
+}
+#endif
+#endif /* !PFOR && !ND && !TASKS */
+
+#ifdef PFE
+/* ================================================================== parallel_for_each.h
+   Vocabulary: the user's sequence is the positions [g_first0, g_last) (an Iterator is a position: only ++, ==, * are used on it by the input / forward code);
+   an Item value remembers which sequence element it is a copy of (src) and whether it is raw memory (0), constructed (1) or destroyed (2).
+   Wait accounting: g_mine = references on the loop's ROOT wait context held by the running code for itself and for entities it has created but not yet made
+   runnable.  A reference must exist before an entity becomes runnable (spawn / bypass / execute_and_wait) and is handed over at that moment; the code may only
+   release what it holds; the body runs only while a reference is held.  Hence the root count is >= the number of unfinished entities: the caller's wait cannot
+   end before every item has been processed, and it ends once all have (no reference is leaked). */
+typedef void task;
+typedef struct task_group_context { int id; } task_group_context;
+typedef struct execution_data { task_group_context *context; } execution_data;
+typedef struct small_object_allocator { void *pool; } small_object_allocator;
+typedef struct wait_context { long refs; } wait_context;
+typedef wait_context wait_context_vertex;            /* wait_context_vertex::reserve/release forward to its wait_context (detail/_task.h) */
+typedef wait_context wait_tree_vertex_interface;
+typedef struct Body { int id; } Body;
+typedef struct Item { size_t src; unsigned char state; } Item;
+typedef Item ITEM_ARG;
+typedef size_t Iterator;
+struct feeder_impl { const Body *my_body; wait_context_vertex *my_wait_context; task_group_context *my_execution_context; };
+#define ALLOCATOR_INIT(a) ((a).pool = NULL)
+#define ASPACE_BEGIN(a) (&(a)[0])
+#define ASPACE_END(a) (&(a)[0] + sizeof(a) / sizeof((a)[0]))      /* aligned_space<T,N>::end() == begin() + N (checked by the extractor) */
+#define ITEM_MOVE(x) (x)
+#define ITEM_COPY(x) (x)
+#define ITEM_FWD(x) (x)
+/* ---- ghost state */
+size_t g_first0, g_last, g_k;                        /* the sequence and one arbitrary element of it */
+static wait_context W; long g_others, g_mine;         /* root wait context: W.refs == g_others + g_mine */
+static Body B; static task_group_context C; static struct feeder_impl F;
+size_t g_calls_total, g_deref_total; unsigned g_calls_k, g_deref_k, g_releases, g_reserves; size_t g_calls_at_release;
+size_t g_last_src; const Body *g_call_body; struct feeder_impl *g_call_feeder; bool g_call_with_feeder; long g_mine_at_call;
+static wait_context g_thread_vertex; static wait_context *g_vertex_parent;      /* r1::get_thread_reference_vertex(&root): a per-thread vertex that keeps one reference on its parent while its own count is > 0 (trusted) */
+static void body_invoke(const Body *b, Item it, struct feeder_impl *f, bool with_feeder) {
+    OBLIGATION(it.state == 1, "C05.pfe: the body is applied to a constructed item only (never to raw or destroyed block memory)");
+    g_calls_total++; if (it.src == g_k) g_calls_k++;
+    g_last_src = it.src; g_call_body = b; g_call_feeder = f; g_call_with_feeder = with_feeder; g_mine_at_call = g_mine;
+}
+#define BODY_INVOKE1(b, item) body_invoke(&(b), (item), NULL, false)
+#define BODY_INVOKE2(b, item, f) body_invoke(&(b), (item), &(f), true)
+#ifdef FEEDER_REQUIRED
+#define SELECTOR_CALL(b, item, f) selector_call_feeder(&(b), (item), (f))
+#else
+#define SELECTOR_CALL(b, item, f) selector_call_plain(&(b), (item), (f))
+#endif
+static Item seq_deref(Iterator i) {
+    OBLIGATION(i >= g_first0 && i < g_last, "C05.pfe: only positions inside [first,last) are dereferenced (nothing outside the iteration space)");
+    g_deref_total++; if (i == g_k) g_deref_k++;
+    Item it; it.src = i; it.state = 1; return it;
+}
+#define SEQ_DEREF(i) seq_deref(i)
+static void root_ref(wait_context *w, long d) {          /* an operation on the ROOT context (directly or through the thread's reference vertex) */
+    g_others = nondet_long(); __CPROVER_assume(g_others >= 0 && g_others < (1L << 40)); W.refs = g_others + g_mine;    /* other entities come and go */
+    if (d < 0) { OBLIGATION(g_mine >= -d, "C05.pfe.wait: only a reference that is held is released (the root count cannot reach zero while work is outstanding)"); g_releases++; g_calls_at_release = g_calls_total; }
+    else g_reserves++;
+    W.refs += d; g_mine += d;
+}
+static void block_ref(wait_context *w, long d);
+bool g_plain_wait;                                  /* run_parallel_for_each: the root context is a local of the function under proof */
+static void wait_op(wait_context *w, long d) {
+    if (g_plain_wait) { w->refs += d; if (d > 0) g_reserves++; else g_releases++; }
+    else if (w == &W) root_ref(w, d);
+    else if (w == &g_thread_vertex) { OBLIGATION(g_vertex_parent == &W, "C05.pfe.wait: a feeder task's reference vertex hangs under the loop's root wait context"); g_thread_vertex.refs += d; root_ref(&W, d); }
+    else block_ref(w, d);
+}
+#define WAIT_RESERVE(w) wait_op(&(w), 1)
+#define WAIT_RELEASE(w) wait_op(&(w), -1)
+#define WAIT_CTOR(w, n) ((w).refs = (n))
+#define WAIT_GET_CONTEXT(w) (w)
+#define INIT_it_item_ptr_1(s, e) ((s)->item_ptr = (e))
+#define INIT_it_my_body_1(s, e) ((s)->my_body = &(e))
+#define INIT_it_my_feeder_ptr_1(s, e) ((s)->my_feeder_ptr = (e))
+#define INIT_it_parent_wait_context_1(s, e) ((s)->parent_wait_context = &(e))
+#define INIT_blk_my_size_1(s, e) ((s)->my_size = (e))
+#define INIT_blk_my_wait_context_1(s, e) ((s)->my_wait_context.refs = (e))            /* wait_context(ref_count) */
+#define INIT_blk_my_root_wait_context_1(s, e) ((s)->my_root_wait_context = &(e))
+#define INIT_blk_my_execution_context_1(s, e) ((s)->my_execution_context = &(e))
+#define INIT_blk_my_allocator_1(s, e) ((s)->my_allocator = (e))
+static void mk_root_wait(long mine) { g_mine = mine; g_others = nondet_long(); __CPROVER_assume(g_others >= 0 && g_others < (1L << 40)); W.refs = g_others + g_mine; g_releases = g_reserves = 0; }
+static void mk_seq(void) { g_first0 = nondet_size_t(); g_last = nondet_size_t(); g_k = nondet_size_t(); __CPROVER_assume(g_first0 <= g_last);
+    g_calls_total = g_calls_k = g_deref_total = g_deref_k = g_calls_at_release = 0; g_call_body = NULL; g_call_feeder = NULL; }
+
+#if defined(PFE_INPUT)
+typedef Item *TASK_ITER;                             /* const Item* / std::move_iterator<Item*> into the block's copies */
+#define TASK_ITER_DEREF(p) (*(p))
+#define ITER_FROM_ITEMPTR(p) (p)
+#include "pfe_block_input_const.inc"
+#else
+typedef Iterator TASK_ITER;                          /* the user's forward iterator */
+#define TASK_ITER_DEREF(i) seq_deref(i)
+#include "pfe_block_forward_const.inc"
+#endif
+struct iteration_task { TASK_ITER item_ptr; const Body *my_body; struct feeder_impl *my_feeder_ptr; wait_context *parent_wait_context; };
+struct block_task {
+#if defined(PFE_INPUT)
+    Item block_iteration_space[max_block_size];
+#endif
+    struct iteration_task task_pool[max_block_size]; size_t my_size; wait_context my_wait_context; wait_context_vertex *my_root_wait_context;
+    task_group_context *my_execution_context; small_object_allocator my_allocator; };
+#include "pfe_iter.inc"
+#define NEW_AT_iteration_task(place, ip, body, fp, wc) iteration_task_ctor((place), (ip), &(body), (fp), &(wc))
+
+#ifdef PFE_ITER
+/* ---------------------------------------------------------------- for_each_iteration_task: constructor, execute, cancel */
+static void block_ref(wait_context *w, long d) { if (d < 0) { g_releases++; g_calls_at_release = g_calls_total; } else g_reserves++; w->refs += d; }
+bool IN_cancel;
+void h_pfe_iter(void) {
+    struct iteration_task T; wait_context BW; Item slot; execution_data ed; ed.context = &C;
+    mk_seq(); g_releases = g_reserves = 0;
+    BW.refs = nondet_long(); __CPROVER_assume(BW.refs >= 1 && BW.refs <= 4); long refs0 = BW.refs;     /* this task was counted before it was started (block execute) */
+#if defined(PFE_INPUT)
+    slot.src = nondet_size_t(); slot.state = 1; TASK_ITER ip = &slot; size_t expect = slot.src;
+#else
+    TASK_ITER ip = nondet_size_t(); __CPROVER_assume(ip >= g_first0 && ip < g_last); size_t expect = ip;
+#endif
+#ifdef FEEDER_REQUIRED
+    struct feeder_impl *fp = &F;
+#else
+    struct feeder_impl *fp = NULL;
+#endif
+    iteration_task_ctor(&T, ip, &B, fp, &BW);
+    OBLIGATION(T.item_ptr == ip && T.my_body == &B && T.my_feeder_ptr == fp && T.parent_wait_context == &BW, "C05.pfe.iter: the iteration task remembers its element, the body, the feeder and its block's wait context");
+    bool cancel = IN_cancel = nondet_bool();
+    task *r = cancel ? iteration_task_cancel(&T, &ed) : iteration_task_execute(&T, &ed);
+    if (!cancel) {
+        OBLIGATION(g_calls_total == 1 && g_last_src == expect && g_call_body == &B, "C05.pfe.iter: the body is applied exactly once, to this task's own element");
+#ifdef FEEDER_REQUIRED
+        OBLIGATION(g_call_with_feeder && g_call_feeder == &F, "C05.pfe.iter: a body that takes a feeder gets the loop's feeder");
+#endif
+        OBLIGATION(g_calls_at_release == 1, "C05.pfe.iter: the block is told about completion only after the body has returned");
+    } else OBLIGATION(g_calls_total == 0, "C05.pfe.iter: a cancelled iteration task does not run the body");
+    OBLIGATION(g_releases == 1 && g_reserves == 0 && BW.refs == refs0 - 1 && r == NULL, "C05.pfe.iter: executed or cancelled, the task releases its block's wait context exactly once");
+    VACUITY_END();
+}
+#endif /* PFE_ITER */
+
+#if defined(PFE_BLOCK) || defined(PFE_ROOT)
+/* ---------------------------------------------------------------- block handling tasks */
+static struct block_task *BLK; bool g_blk_freed; unsigned g_blk_deleted, g_item_dtors, g_task_dtors; size_t g_size_at_delete;
+unsigned g_started[8]; unsigned g_started_total, g_bw_reserved, g_waits; bool g_in_block_execute;
+static void dtor_item(Item *p) { OBLIGATION(p->state == 1, "C05.pfe.block: only a constructed item copy is destroyed, and only once"); p->state = 2; g_item_dtors++; }
+static void dtor_task(struct iteration_task *p) { g_task_dtors++; }
+#define DTOR_Item(p) dtor_item(p)
+#define DTOR_iteration_task(p) dtor_task(p)
+#define LOOP_block_dtor_1
+#define LOOP_block_execute_1
+static void block_ref(wait_context *w, long d) {
+    OBLIGATION(BLK != NULL && w == &BLK->my_wait_context, "C05.pfe.block: besides the root context only the block's own wait context is used");
+    if (d > 0) g_bw_reserved++;
+    w->refs += d;
+}
+static void spawn_(void *t, task_group_context *c);
+static void execute_and_wait_(void *t, task_group_context *c1, wait_context *w, task_group_context *c2);
+#define SPAWN(t, c) spawn_((void *)&(t), &(c))
+#define EXECUTE_AND_WAIT(t, c1, w, c2) execute_and_wait_((void *)&(t), &(c1), &(w), &(c2))
+void block_task_dtor(struct block_task *self);
+static void delete_block(struct block_task *self) {
+    OBLIGATION(self == BLK && !g_blk_freed, "C05.pfe.block: the block task deletes itself, once");
+    g_size_at_delete = self->my_size;
+    block_task_dtor(self);
+#if defined(PFE_INPUT)
+    for (unsigned k = 0; k < max_block_size; ++k)
+        OBLIGATION(self->block_iteration_space[k].state == (k < g_size_at_delete ? 2 : 0), "C05.pfe.block: the destructor destroys exactly the my_size item copies that were constructed; the rest of the block is raw memory and is not touched");
+#endif
+    g_blk_deleted++; g_blk_freed = true; free(self);
+}
+#define DELETE_OBJECT(a, self, ed) delete_block(self)
+#if defined(PFE_INPUT)
+#include "pfe_block_input.inc"
+#else
+#include "pfe_block_forward.inc"
+#endif
+static struct block_task *alloc_block(void) { struct block_task *b = malloc(sizeof(struct block_task)); __CPROVER_assume(b != NULL);
+#if defined(PFE_INPUT)
+    for (unsigned k = 0; k < max_block_size; ++k) b->block_iteration_space[k].state = 0;
+#endif
+    BLK = b; g_blk_freed = false; return b; }
+#endif
+
+#ifdef PFE_BLOCK
+static void spawn_(void *t, task_group_context *c) {
+    struct iteration_task *p = (struct iteration_task *)t;
+    OBLIGATION(p >= &BLK->task_pool[1] && p < &BLK->task_pool[max_block_size] && (size_t)(p - BLK->task_pool) < BLK->my_size, "C05.pfe.block: only iteration tasks 1..my_size-1 of the block are spawned (slots >= my_size hold no element)");
+    size_t k = (size_t)(p - BLK->task_pool);
+    OBLIGATION(g_bw_reserved == g_started_total + 1, "C05.pfe.block: a child is counted in the block's wait context before it becomes runnable");
+    OBLIGATION(c == &C, "C05.pfe.block: children run in the loop's context");
+    g_started[k]++; g_started_total++;
+}
+static void execute_and_wait_(void *t, task_group_context *c1, wait_context *w, task_group_context *c2) {
+    OBLIGATION(t == (void *)&BLK->task_pool[0] && w == &BLK->my_wait_context && c1 == &C && c2 == &C, "C05.pfe.block: the block runs its first iteration task itself and waits on its own wait context");
+    OBLIGATION(g_bw_reserved == g_started_total + 1, "C05.pfe.block: the first child is counted in the block's wait context before it is run");
+    g_started[0]++; g_started_total++; g_waits++;
+    /* every started child runs (or is cancelled) and releases the block's context exactly once (job pfe.iter.*); the wait returns when the count is zero */
+    w->refs -= g_started_total;
+    OBLIGATION(w->refs == 0, "C05.pfe.block: the block's wait ends exactly when all started children have finished: no reference is missing (early return) and none is left over (the wait would never end)");
+}
+size_t IN_size, IN_first;
+void h_pfe_block(void) {
+    execution_data ed; ed.context = &C; small_object_allocator a; a.pool = nondet_ptr();
+    mk_seq(); mk_root_wait(1);                       /* the root task reserved one reference for this block before handing it out (job pfe.root.*) */
+#ifdef FEEDER_REQUIRED
+    struct feeder_impl *fp = &F;
+#else
+    struct feeder_impl *fp = NULL;
+#endif
+    struct block_task *b = alloc_block();
+    size_t n = IN_size = nondet_size_t(); __CPROVER_assume(n >= 1 && n <= max_block_size);
+    size_t f = IN_first = nondet_size_t(); __CPROVER_assume(f >= g_first0 && f <= g_last && g_last - f >= n);
+#if defined(PFE_INPUT)
+    block_task_ctor(b, &W, &C, &B, fp, &a);
+    OBLIGATION(b->my_size == 0, "C05.pfe.block: a fresh input block holds no items");
+    for (unsigned k = 0; k < max_block_size; ++k)
+        OBLIGATION(b->task_pool[k].item_ptr == &b->block_iteration_space[k] && b->task_pool[k].my_body == &B && b->task_pool[k].my_feeder_ptr == fp && b->task_pool[k].parent_wait_context == &b->my_wait_context,
+                   "C05.pfe.block: iteration task k of an input block is bound to item slot k of the same block, to the body, the feeder and the block's own wait context");
+    for (unsigned k = 0; k < max_block_size; ++k) if (k < n) { b->block_iteration_space[k].src = f + k; b->block_iteration_space[k].state = 1; }   /* what root::execute leaves (job pfe.root.input) */
+    b->my_size = n;
+#else
+    block_task_ctor(b, f, n, &W, &C, &B, fp, &a);
+    OBLIGATION(b->my_size == n, "C05.pfe.block: a forward block remembers how many elements it was given");
+    for (unsigned k = 0; k < max_block_size; ++k) if (k < n)
+        OBLIGATION(b->task_pool[k].item_ptr == f + k && b->task_pool[k].my_body == &B && b->task_pool[k].my_feeder_ptr == fp && b->task_pool[k].parent_wait_context == &b->my_wait_context,
+                   "C05.pfe.block: iteration task k of a forward block is bound to element first+k, to the body, the feeder and the block's own wait context");
+#endif
+    __CPROVER_assume(b->my_size == n);               /* just checked; keeps a broken constructor from also exhausting the unwinding bound below */
+    OBLIGATION(b->my_wait_context.refs == 0 && b->my_root_wait_context == &W && b->my_execution_context == &C && b->my_allocator.pool == a.pool && g_mine == 1 && g_releases == 0 && g_reserves == 0,
+               "C05.pfe.block: the block starts with no counted children, remembers the root wait context, the loop's context and its allocator; constructing it touches no reference count");
+    for (unsigned k = 0; k < 8; ++k) g_started[k] = 0;
+    g_started_total = g_bw_reserved = g_waits = g_blk_deleted = g_item_dtors = g_task_dtors = 0;
+    bool cancel = nondet_bool();
+    task *r = cancel ? block_task_cancel(b, &ed) : block_task_execute(b, &ed);
+    for (unsigned k = 0; k < max_block_size; ++k)
+        OBLIGATION(g_started[k] == ((!cancel && k < n) ? 1 : 0), "C05.pfe.block: each of the my_size iteration tasks is started exactly once (spawned, or run by the block itself); no other slot is started; a cancelled block starts none");
+    OBLIGATION(cancel || g_waits == 1, "C05.pfe.block: the block waits for its children once");
+    OBLIGATION(g_releases == 1 && g_mine == 0 && g_reserves == 0, "C05.pfe.block: the block gives back the root reference that was reserved for it exactly once, after its children are done");
+    OBLIGATION(g_blk_deleted == 1 && r == NULL, "C05.pfe.block: the block deletes itself once and returns no task");
+#if defined(PFE_INPUT)
+    OBLIGATION(g_item_dtors == n, "C05.pfe.block: every item copy is destroyed exactly once");
+#endif
+    VACUITY_END();
+}
+#endif /* PFE_BLOCK */
+
+#ifdef PFE_ROOT
+/* ---------------------------------------------------------------- for_each_root_task (input / forward / random access), for_each_root_task_base, feeder_holder, run_parallel_for_each */
+#ifdef FEEDER_REQUIRED
+struct feeder_holder { struct feeder_impl my_feeder; };
+#define INIT_fi_my_body_1(s, e) ((s)->my_body = &(e))
+#define INIT_fi_my_wait_context_1(s, e) ((s)->my_wait_context = &(e))
+#define INIT_fi_my_execution_context_1(s, e) ((s)->my_execution_context = &(e))
+void feeder_impl_ctor(struct feeder_impl *self, const Body *body, wait_context_vertex *w_context, task_group_context *context);
+#define INIT_fh_my_feeder_3(s, b, w, c) feeder_impl_ctor(&(s)->my_feeder, &(b), &(w), &(c))
+#else
+struct feeder_holder { int no_feeder; };
+#endif
+struct root_task { Iterator my_first; Iterator my_last; wait_context_vertex *my_wait_context; task_group_context *my_execution_context; const Body *my_body; struct feeder_holder my_feeder_holder; };
+struct pfe_wrapper { Iterator my_first; const Body *my_body; struct feeder_impl *my_feeder_ptr; };
+#define INIT_root_my_first_1(s, e) ((s)->my_first = (e))
+#define INIT_root_my_last_1(s, e) ((s)->my_last = (e))
+#define INIT_root_my_wait_context_1(s, e) ((s)->my_wait_context = &(e))
+#define INIT_root_my_execution_context_1(s, e) ((s)->my_execution_context = &(e))
+#define INIT_root_my_body_1(s, e) ((s)->my_body = &(e))
+#define INIT_root_my_feeder_holder_3(s, w, c, b) feeder_holder_ctor(&(s)->my_feeder_holder, &(w), &(c), &(b))
+#define INIT_pw_my_first_1(s, e) ((s)->my_first = (e))
+#define INIT_pw_my_body_1(s, e) ((s)->my_body = &(e))
+#define INIT_pw_my_feeder_ptr_1(s, e) ((s)->my_feeder_ptr = (e))
+static struct root_task *ROOT; bool g_root_published; unsigned g_root_spawns, g_block_allocs, g_pf_calls, g_ew_calls;
+size_t g_first_at_spawn, g_last_at_spawn; long g_mine_at_spawn; size_t g_blk_size_at_spawn;
+#if defined(PFE_INPUT)
+#define NEW_block_task(a, ed, w, c, b, fp, a2) ({ struct block_task *t_ = alloc_block(); g_block_allocs++; block_task_ctor(t_, &(w), &(c), &(b), (fp), &(a2)); t_; })
+static void new_at_item(Item *place, Item v) { OBLIGATION(place->state == 0, "C05.pfe.root: an item copy is constructed into raw block memory (each slot at most once)"); *place = v; }
+#define NEW_AT_Item(place, v) new_at_item((place), (v))
+#else
+#define NEW_block_task(a, ed, f, n, w, c, b, fp, a2) ({ struct block_task *t_ = alloc_block(); g_block_allocs++; block_task_ctor(t_, (f), (n), &(w), &(c), &(b), (fp), &(a2)); t_; })
+#endif
+/* ghost monitor on the block-filling loop: on a conforming run it is a no-op; a loop that would take more than max_block_size elements fails here instead of exhausting the unwinding bound */
+unsigned g_fill_iter;
+#define LOOP_root_execute_1 if (g_fill_iter++ >= max_block_size) { OBLIGATION(false, "C05.pfe.root: the loop that fills a block stops after at most max_block_size elements"); break; } else
+/* spawn(*this): from here on another thread may run the root task again: its iteration state must not be touched any more (the object is poisoned by free) */
+static void spawn_(void *t, task_group_context *c) {
+    OBLIGATION(t == (void *)ROOT && !g_root_published && c == &C, "C05.pfe.root: the root task re-spawns itself, once, in the loop's context");
+    g_first_at_spawn = ROOT->my_first; g_last_at_spawn = ROOT->my_last; g_mine_at_spawn = g_mine; g_blk_size_at_spawn = BLK ? BLK->my_size : 0;
+    g_root_spawns++; g_root_published = true;
+    g_mine -= 1;                                     /* the root's own reference travels with the re-spawned root */
+    free(ROOT);
+}
+struct root_task *g_ew_task; wait_context *g_ew_w; task_group_context *g_ew_c1, *g_ew_c2; long g_ew_refs; size_t g_ew_first, g_ew_last; const Body *g_ew_body; wait_context *g_ew_task_w; struct feeder_impl *g_ew_fp;
+static struct feeder_impl *feeder_holder_feeder_ptr(struct feeder_holder *self);
+static void execute_and_wait_(void *t, task_group_context *c1, wait_context *w, task_group_context *c2) {
+    g_ew_calls++; g_ew_task = (struct root_task *)t; g_ew_w = w; g_ew_c1 = c1; g_ew_c2 = c2; g_ew_refs = w->refs;
+    g_ew_first = g_ew_task->my_first; g_ew_last = g_ew_task->my_last; g_ew_body = g_ew_task->my_body; g_ew_task_w = g_ew_task->my_wait_context; g_ew_fp = feeder_holder_feeder_ptr(&g_ew_task->my_feeder_holder);
+}
+#define ITER_DISTANCE(a, b) ((b) - (a))
+#define MK_RANGE(b, e) ({ struct blocked_range r_; blocked_range_ctor(&r_, (b), (e), 1); r_; })      /* blocked_range(begin, end, grainsize = 1) */
+void pfe_wrapper_ctor(struct pfe_wrapper *self, Iterator first, const Body *body, struct feeder_impl *feeder_ptr);
+#define MK_WRAPPER(f, b, fp) ({ struct pfe_wrapper w_; pfe_wrapper_ctor(&w_, (f), &(b), (fp)); w_; })
+struct blocked_range g_pf_range; struct pfe_wrapper g_pf_wrapper; task_group_context *g_pf_ctx; long g_mine_at_pf;
+static void stub_parallel_for(struct blocked_range r, struct pfe_wrapper w, task_group_context *c) { g_pf_calls++; g_pf_range = r; g_pf_wrapper = w; g_pf_ctx = c; g_mine_at_pf = g_mine; }
+#define STUB_parallel_for(r, w, c) stub_parallel_for((r), (w), &(c))
+#define LOOP_pfe_wrapper_1
+#include "pfe_wrapper.inc"
+#include "pfe_root.inc"
+#ifdef FEEDER_REQUIRED
+#include "pfe_feeder_impl_ctor.inc"
+#endif
+#if defined(PFE_INPUT)
+#include "pfe_root_input.inc"
+#elif defined(PFE_FORWARD)
+#include "pfe_root_forward.inc"
+#else
+#include "pfe_root_random.inc"
+#endif
+size_t IN_first, IN_last;
+static struct root_task *mk_root(size_t f, size_t l) {
+    struct root_task *r = malloc(sizeof(struct root_task)); __CPROVER_assume(r != NULL);
+    ROOT = r; BLK = NULL; g_fill_iter = 0; g_root_published = false; g_root_spawns = g_block_allocs = g_pf_calls = g_ew_calls = 0;
+    root_task_ctor(r, f, l, &B, &W, &C);
+    return r;
+}
+void h_pfe_root(void) {
+    execution_data ed; ed.context = &C;
+    mk_seq(); mk_root_wait(0);
+    size_t f = IN_first = g_first0, l = IN_last = g_last;         /* an arbitrary execution of the root: [f,l) is what is still to be handed out */
+    struct root_task *r = mk_root(f, l);
+    OBLIGATION(r->my_first == f && r->my_last == l && r->my_body == &B && r->my_wait_context == &W && r->my_execution_context == &C, "C05.pfe.root: the root task covers exactly [first,last) with the caller's body, wait context and task group context");
+    OBLIGATION(g_mine == 1 && g_reserves == 1 && g_releases == 0, "C05.pfe.root: the root task holds one reference on the wait context from its construction on");
+#ifdef FEEDER_REQUIRED
+    struct feeder_impl *fp = feeder_holder_feeder_ptr(&r->my_feeder_holder);
+    OBLIGATION(fp == &r->my_feeder_holder.my_feeder && fp->my_body == &B && fp->my_wait_context == &W && fp->my_execution_context == &C, "C05.pfe.root: a body that takes a feeder gets a feeder bound to the loop's body, root wait context and task group context");
+#else
+    struct feeder_impl *fp = feeder_holder_feeder_ptr(&r->my_feeder_holder);
+    OBLIGATION(fp == NULL, "C05.pfe.root: no feeder is created for a body that does not take one");
+#endif
+    g_reserves = g_releases = 0;
+    bool cancel = nondet_bool();
+    task *ret = cancel ? root_task_cancel(r, &ed) : root_task_execute(r, &ed);
+    if (cancel) {
+        OBLIGATION(g_releases == 1 && g_mine == 0 && g_reserves == 0 && ret == NULL && g_root_spawns == 0 && g_block_allocs == 0 && g_calls_total == 0 && g_deref_total == 0, "C05.pfe.root: a cancelled root gives back its reference once and starts nothing");
+    }
+#if defined(PFE_RANDOM)
+    else {
+        OBLIGATION(g_pf_calls == 1 && g_pf_range.my_begin == 0 && g_pf_range.my_end == l - f && g_pf_range.my_grainsize == 1, "C05.pfe.random: random-access input is run as one parallel_for over exactly the index space [0, last-first)");
+        OBLIGATION(g_pf_wrapper.my_first == f && g_pf_wrapper.my_body == &B && g_pf_wrapper.my_feeder_ptr == fp && g_pf_ctx == &C, "C05.pfe.random: index i of that loop stands for element first+i; the user's body, feeder and context are passed on");
+        OBLIGATION(g_mine_at_pf == 1 && g_releases == 1 && g_mine == 0 && g_reserves == 0 && ret == NULL && g_root_spawns == 0, "C05.pfe.random: the root keeps its reference while the inner loop runs and gives it back exactly once afterwards");
+    }
+#else
+    else if (f == l) {
+        OBLIGATION(g_releases == 1 && g_mine == 0 && g_reserves == 0 && ret == NULL && g_root_spawns == 0 && g_block_allocs == 0 && g_deref_total == 0, "C05.pfe.root: when the sequence is exhausted the root gives back its reference exactly once and creates nothing more");
+    } else {
+        size_t n = l - f < max_block_size ? l - f : max_block_size;
+        OBLIGATION(g_block_allocs == 1 && ret == (task *)BLK && !g_blk_freed && g_root_spawns == 1, "C05.pfe.root: one block task is created and returned for execution; the root re-spawns itself once");
+        OBLIGATION(BLK->my_size == n && n >= 1, "C05.pfe.root: the block takes min(remaining, max_block_size) elements: a non-empty block, the last one holds the remainder");
+        OBLIGATION(g_first_at_spawn == f + n && g_last_at_spawn == l && g_blk_size_at_spawn == n, "C05.pfe.root: when the root becomes runnable again it stands exactly behind the block's last element and the block is complete (blocks tile the sequence, no element twice, none skipped)");
+        OBLIGATION(g_mine_at_spawn == 2 && g_reserves == 1 && g_releases == 0 && g_mine == 1, "C05.pfe.root: a reference for the block is reserved before the root is re-spawned and before the block is handed to the scheduler; the root keeps its own");
+        OBLIGATION(BLK->my_root_wait_context == &W && BLK->my_execution_context == &C && BLK->my_wait_context.refs == 0, "C05.pfe.root: the block reports to the loop's root wait context and runs in the loop's context");
+        for (unsigned k = 0; k < max_block_size; ++k) {
+            OBLIGATION(BLK->task_pool[k].my_body == &B && BLK->task_pool[k].my_feeder_ptr == fp || k >= n, "C05.pfe.root: the block's iteration tasks apply the user's body with the loop's feeder");
+#if defined(PFE_INPUT)
+            OBLIGATION(k < n ? (BLK->block_iteration_space[k].state == 1 && BLK->block_iteration_space[k].src == f + k) : BLK->block_iteration_space[k].state == 0,
+                       "C05.pfe.root: block slot k < my_size holds a copy of element first+k, in order; slots >= my_size stay raw memory");
+#else
+            OBLIGATION(k >= n || BLK->task_pool[k].item_ptr == f + k, "C05.pfe.root: iteration task k < my_size of the block is bound to element first+k");
+#endif
+        }
+#if defined(PFE_INPUT)
+        OBLIGATION(g_deref_k == ((g_k >= f && g_k < f + n) ? 1 : 0), "C05.pfe.root: every element of the block is read from the input iterator exactly once (a second read of a move iterator would copy a moved-from element), no element behind the block is read");
+#else
+#endif
+    }
+#endif
+    VACUITY_END();
+}
+#include "pfe_run.inc"
+void h_pfe_run(void) {
+    mk_seq(); g_ew_calls = 0; g_reserves = g_releases = 0; g_mine = 0; g_plain_wait = true; BLK = NULL;
+    size_t f = IN_first = g_first0, l = IN_last = g_last;
+    run_parallel_for_each(f, l, &B, &C);
+    OBLIGATION(g_ew_calls <= 1 && (f == l || g_ew_calls == 1), "C05.pfe.run: a non-empty sequence is handed to exactly one root task and waited for (an empty one to at most one)");
+    OBLIGATION(g_calls_total == 0 && g_deref_total == 0, "C05.pfe.run: the set-up itself touches no element");
+    if (g_ew_calls == 1) {
+        OBLIGATION(g_ew_first == f && g_ew_last == l && g_ew_body == &B && g_ew_c1 == &C && g_ew_c2 == &C, "C05.pfe.run: the root task covers exactly [first,last) with the caller's body and runs in the caller's context");
+        OBLIGATION(g_ew_w == g_ew_task_w && g_ew_refs == 1, "C05.pfe.run: the caller waits on the very wait context the root task reports to, and the root's reference is already counted when the wait starts");
+    }
+    VACUITY_END();
+}
+#endif /* PFE_ROOT */
+
+#ifdef PFE_FEEDER
+/* ---------------------------------------------------------------- feeder_impl::internal_add_copy / internal_add_move, feeder_item_task */
+struct feeder_item_task { Item item; struct feeder_impl *my_feeder; small_object_allocator my_allocator; wait_tree_vertex_interface *m_wait_tree_vertex; };
+#define INIT_fi_my_body_1(s, e) ((s)->my_body = &(e))
+#define INIT_fi_my_wait_context_1(s, e) ((s)->my_wait_context = &(e))
+#define INIT_fi_my_execution_context_1(s, e) ((s)->my_execution_context = &(e))
+#define INIT_ft_item_1(s, e) ((s)->item = (e))
+#define INIT_ft_my_feeder_1(s, e) ((s)->my_feeder = &(e))
+#define INIT_ft_my_allocator_1(s, e) ((s)->my_allocator = (e))
+#define INIT_ft_m_wait_tree_vertex_1(s, e) ((s)->m_wait_tree_vertex = (e))
+static void block_ref(wait_context *w, long d) { OBLIGATION(false, "C05.pfe.feeder: a feeder task only uses the loop's root wait context (through its thread's reference vertex)"); }
+static wait_tree_vertex_interface *STUB_get_thread_reference_vertex(wait_tree_vertex_interface *parent) { g_vertex_parent = parent; return &g_thread_vertex; }
+static struct feeder_item_task *FT; unsigned g_ft_allocs, g_ft_spawns, g_ft_deleted; long g_mine_at_ft_spawn; bool g_ft_freed; Item g_ft_item_at_spawn; struct feeder_impl *g_ft_feeder_at_spawn;
+static struct feeder_item_task *alloc_ftask(void) { struct feeder_item_task *t = malloc(sizeof(struct feeder_item_task)); __CPROVER_assume(t != NULL); FT = t; g_ft_allocs++; g_ft_freed = false; return t; }
+void feeder_item_task_ctor(struct feeder_item_task *self, ITEM_ARG input_item, struct feeder_impl *feeder, small_object_allocator *alloc, wait_tree_vertex_interface *wait_vertex);
+#define NEW_feeder_item_task(a, item, feeder, a2, wv) ({ struct feeder_item_task *t_ = alloc_ftask(); feeder_item_task_ctor(t_, (item), &(feeder), &(a2), &(wv)); t_; })
+static void spawn_(void *t, task_group_context *c) {
+    OBLIGATION(t == (void *)FT && c == &C, "C05.pfe.feeder: the task spawned is the new feeder task, in the loop's context");
+    g_ft_spawns++; g_mine_at_ft_spawn = g_mine; g_ft_item_at_spawn = FT->item; g_ft_feeder_at_spawn = FT->my_feeder;
+    g_mine -= 1;                                     /* the reference travels with the spawned task */
+}
+#define SPAWN(t, c) spawn_((void *)&(t), &(c))
+static void delete_ftask(struct feeder_item_task *self) { OBLIGATION(self == FT && !g_ft_freed, "C05.pfe.feeder: the feeder task deletes itself, once"); g_ft_deleted++; g_ft_freed = true; free(self); }
+#define DELETE_OBJECT(a, self, ed) delete_ftask(self)
+static void feeder_item_task_call_first(const Body *call_body, Item *call_item, struct feeder_impl *call_feeder);
+static void feeder_item_task_call_second(const Body *call_body, Item *call_item, struct feeder_impl *call_feeder);
+/* call(body, item, feeder, first_priority{}): overload resolution picks the rvalue form when the body accepts Item&&, else the lvalue form; my_feeder.my_body is a reference member (pointer here) */
+#define FEEDER_TASK_CALL(bodyp, item, feeder) (nondet_bool() ? feeder_item_task_call_first((bodyp), &(item), &(feeder)) : feeder_item_task_call_second((bodyp), &(item), &(feeder)))
+#include "pfe_feeder_impl_ctor.inc"
+#include "pfe_feeder.inc"
+size_t IN_src; bool IN_move;
+static void mk_feeder(void) {
+    mk_seq(); g_ft_allocs = g_ft_spawns = g_ft_deleted = 0; g_thread_vertex.refs = nondet_long(); __CPROVER_assume(g_thread_vertex.refs >= 0 && g_thread_vertex.refs < (1L << 40)); g_vertex_parent = NULL;
+    feeder_impl_ctor(&F, &B, &W, &C);
+}
+void h_pfe_feeder_add(void) {
+    mk_feeder(); mk_root_wait(0);                    /* the caller is a running body: its own task's reference is not ours to count */
+    OBLIGATION(F.my_body == &B && F.my_wait_context == &W && F.my_execution_context == &C, "C05.pfe.feeder: the feeder is bound to the loop's body, root wait context and task group context");
+    Item it; it.src = IN_src = nondet_size_t(); it.state = 1;
+    bool mv = IN_move = nondet_bool();
+    if (mv) feeder_impl_internal_add_move(&F, &it); else feeder_impl_internal_add_copy(&F, &it);
+    OBLIGATION(g_ft_allocs == 1 && g_ft_spawns == 1, "C05.pfe.feeder: add() creates exactly one task for the added item and spawns it once");
+    OBLIGATION(g_ft_item_at_spawn.src == it.src && g_ft_item_at_spawn.state == 1 && g_ft_feeder_at_spawn == &F, "C05.pfe.feeder: the task carries its own copy of exactly the added item and the feeder it came from");
+    OBLIGATION(g_mine_at_ft_spawn == 1 && g_reserves == 1 && g_releases == 0 && g_mine == 0, "C05.pfe.feeder: one reference on the root wait context is reserved for the added item before its task becomes runnable (the loop cannot finish before the item is processed)");
+    OBLIGATION(g_calls_total == 0, "C05.pfe.feeder: add() itself does not run the body");
+    VACUITY_END();
+}
+void h_pfe_feeder_task(void) {
+    execution_data ed; ed.context = &C; small_object_allocator a; a.pool = nondet_ptr();
+    mk_feeder(); mk_root_wait(0);
+    Item it; it.src = IN_src = nondet_size_t(); it.state = 1;
+    struct feeder_item_task *t = alloc_ftask();
+    feeder_item_task_ctor(t, it, &F, &a, &W);
+    OBLIGATION(g_mine == 1 && g_reserves == 1 && t->item.src == it.src && t->my_feeder == &F && t->m_wait_tree_vertex == &g_thread_vertex && g_vertex_parent == &W, "C05.pfe.feeder: a constructed feeder task holds one reference under the root wait context, its item and its feeder");
+    g_reserves = g_releases = 0;
+    bool cancel = nondet_bool();
+    task *r = cancel ? feeder_item_task_cancel(t, &ed) : feeder_item_task_execute(t, &ed);
+    if (!cancel) {
+        OBLIGATION(g_calls_total == 1 && g_last_src == it.src && g_call_body == &B && g_call_with_feeder && g_call_feeder == &F, "C05.pfe.feeder: an added item gets the user's body applied exactly once, with the same feeder");
+        OBLIGATION(g_mine_at_call == 1 && g_calls_at_release == 1, "C05.pfe.feeder: the item's reference is held while the body runs and released after it has returned");
+    } else OBLIGATION(g_calls_total == 0, "C05.pfe.feeder: a cancelled feeder task does not run the body");
+    OBLIGATION(g_releases == 1 && g_reserves == 0 && g_mine == 0 && g_ft_deleted == 1 && r == NULL, "C05.pfe.feeder: executed or cancelled, the feeder task gives back its reference exactly once and deletes itself once");
+    VACUITY_END();
+}
+#endif /* PFE_FEEDER */
+
+#ifdef PFE_WRAP
+/* ---------------------------------------------------------------- parallel_for_body_wrapper::operator() of parallel_for_each (random-access iterators): LC, any chunk */
+struct pfe_wrapper { Iterator my_first; const Body *my_body; struct feeder_impl *my_feeder_ptr; };
+#define INIT_pw_my_first_1(s, e) ((s)->my_first = (e))
+#define INIT_pw_my_body_1(s, e) ((s)->my_body = &(e))
+#define INIT_pw_my_feeder_ptr_1(s, e) ((s)->my_feeder_ptr = (e))
+static void block_ref(wait_context *w, long d) { }
+size_t g_wb, g_we, g_wf;
+#define IN_CHUNK(i) ((i) >= g_wb && (i) < g_we)
+#define LOOP_pfe_wrapper_1 __CPROVER_assigns(count, g_calls_total, g_calls_k, g_deref_total, g_deref_k, g_last_src, g_call_body, g_call_feeder, g_call_with_feeder, g_mine_at_call) \
+    __CPROVER_loop_invariant(g_wb <= count && count <= g_we && g_calls_total == count - g_wb && g_calls_k == ((g_k >= g_wf + g_wb && g_k < g_wf + count) ? 1 : 0) && g_deref_k == g_calls_k \
+        && (count == g_wb || (g_last_src == g_wf + count - 1 && g_call_body == &B))) \
+    __CPROVER_decreases(g_we - count)
+#include "pfe_wrapper.inc"
+size_t IN_first, IN_b, IN_e, IN_k;
+void h_pfe_wrapper(void) {
+    mk_seq();
+    size_t f = IN_first = g_first0; IN_k = g_k;
+    size_t b = IN_b = nondet_size_t(), e = IN_e = nondet_size_t();
+    __CPROVER_assume(b <= e && e <= g_last - f);                      /* a chunk of the index space [0, last-first) handed out by parallel_for (jobs exec.*, br.split.*) */
+    g_wb = b; g_we = e; g_wf = f;
+#ifdef FEEDER_REQUIRED
+    struct feeder_impl *fp = &F;
+#else
+    struct feeder_impl *fp = NULL;
+#endif
+    struct pfe_wrapper w; pfe_wrapper_ctor(&w, f, &B, fp);
+    struct blocked_range r; blocked_range_ctor(&r, b, e, 1);
+    pfe_wrapper_call(&w, r);
+    OBLIGATION(g_calls_total == e - b, "C05.pfe.wrapper: a chunk [b,e) of the index space makes e-b body calls");
+    OBLIGATION(g_calls_k == ((g_k >= f + b && g_k < f + e) ? 1 : 0), "C05.pfe.wrapper: element first+i gets the body applied exactly once for every index i of the chunk, and no other element is touched");
+    VACUITY_END();
+}
+#endif /* PFE_WRAP */
+#endif /* PFE */
+
+#ifdef INVOKE
+/* ================================================================== parallel_invoke.h
+   The user's functions are numbered; Fn.idx is the number of a function, a pack fs... is the interval [base, base+n) of numbers.
+   g_k is one arbitrary function number: "function g_k is called / started exactly once" stands for every function.
+   Root wait context accounting as for parallel_for_each: g_mine = references held by the code under proof for entities it has not yet made runnable. */
+typedef void task;
+typedef struct task_group_context { int traits; } task_group_context;
+typedef struct execution_data { task_group_context *context; } execution_data;
+typedef struct small_object_allocator { void *pool; } small_object_allocator;
+typedef struct wait_context { long refs; } wait_context;
+typedef struct Fn { size_t idx; } Fn;
+typedef struct FN_PACK { size_t base, n; } FN_PACK;
+#define PARALLEL_INVOKE 11
+#define ALLOCATOR_INIT(a) ((a).pool = NULL)
+#define CONTEXT_CTOR(c, t) ((c).traits = (t))
+#define WAIT_CTOR(w, n) ((w).refs = (n))
+#define VERIF_STATIC_ASSERT(c, m) __CPROVER_assert((c), "static_assert: " m)
+struct invoke_root_task { wait_context *my_wait_context; };
+struct invoke_subroot_task;
+struct function_invoker_r { const Fn *my_function; struct invoke_root_task *parent_wait_ctx; };
+struct function_invoker_s { const Fn *my_function; struct invoke_subroot_task *parent_wait_ctx; };
+struct invoke_subroot_task { wait_context *root_wait_ctx; unsigned ref_count; bool child_spawned; const Fn *self_invoked_functor; struct function_invoker_s f2_invoker; struct function_invoker_s f3_invoker;
+                             task_group_context *my_execution_context; small_object_allocator my_allocator; };
+#define INIT_inv_my_function_1(s, e) ((s)->my_function = &(e))
+#define INIT_inv_parent_wait_ctx_1(s, e) ((s)->parent_wait_ctx = &(e))
+#define INIT_rt_my_wait_context_1(s, e) ((s)->my_wait_context = &(e))
+#define INIT_sub_root_wait_ctx_1(s, e) ((s)->root_wait_ctx = &(e))
+#define INIT_sub_ref_count_1(s, e) ((s)->ref_count = (e))
+#define INIT_sub_child_spawned_1(s, e) ((s)->child_spawned = (e))
+#define INIT_sub_self_invoked_functor_1(s, e) ((s)->self_invoked_functor = &(e))
+#define INIT_sub_f2_invoker_2(s, f, me) function_invoker_s_ctor(&(s)->f2_invoker, &(f), &(me))
+#define INIT_sub_f3_invoker_2(s, f, me) function_invoker_s_ctor(&(s)->f3_invoker, &(f), &(me))
+#define INIT_sub_my_execution_context_1(s, e) ((s)->my_execution_context = &(e))
+#define INIT_sub_my_allocator_1(s, e) ((s)->my_allocator = (e))
+size_t g_k; unsigned g_fn_calls, g_fn_calls_k; size_t g_last_idx; unsigned g_releases, g_reserves, g_calls_at_release;
+static wait_context W; static task_group_context C; long g_others, g_mine, g_mine_at_call;
+static void fn_call(const Fn *f) { g_fn_calls++; if (f->idx == g_k) g_fn_calls_k++; g_last_idx = f->idx; g_mine_at_call = g_mine; }
+#define FN_CALL(f) fn_call(&(f))
+bool g_plain_wait;
+static void wait_op(wait_context *w, long d) {
+    if (g_plain_wait) { w->refs += d; return; }
+    __CPROVER_assert(w == &W, "C05.invoke: the only wait context used is the root wait context of the parallel_invoke call");
+    g_others = nondet_long(); __CPROVER_assume(g_others >= 0 && g_others < (1L << 40)); W.refs = g_others + g_mine;        /* sub-roots and invokers of other levels come and go */
+    if (d < 0) { OBLIGATION(g_mine >= -d, "C05.invoke.wait: only a reference that is held is released (the root count cannot reach zero while a function is outstanding)"); g_releases++; g_calls_at_release = g_fn_calls; }
+    else g_reserves++;
+    W.refs += d; g_mine += d;
+}
+#define WAIT_RESERVE(w) wait_op(&(w), 1)
+#define WAIT_RELEASE(w) wait_op(&(w), -1)
+#define WAIT_RESERVE_N(w, n) wait_op(&(w), (n))
+static void mk_root_wait(long mine) { g_mine = mine; g_others = nondet_long(); __CPROVER_assume(g_others >= 0 && g_others < (1L << 40)); W.refs = g_others + g_mine; g_releases = g_reserves = g_calls_at_release = 0; g_fn_calls = g_fn_calls_k = 0; g_k = nondet_size_t(); }
+void function_invoker_s_ctor(struct function_invoker_s *self, const Fn *function, struct invoke_subroot_task *wait_ctx);
+void invoke_subroot_task_release(struct invoke_subroot_task *self, const execution_data *ed);
+#include "invoke_root.inc"
+#include "invoke_invoker_r.inc"
+
+#ifdef INV_SUB
+/* ---------------------------------------------------------------- invoke_subroot_task: rely/guarantee on ref_count.
+   INV: ref_count == number of parties (the sub-root itself, its f2 and f3 invokers) that hold an unreleased reference == g_sub_others + g_sub_mine.
+   Rely: other parties only ever release (children are spawned by the sub-root itself, after the count was raised); a party whose release is not the last must not touch the
+   sub-root any more: whoever is last deletes it (modelled by freeing the object at that moment, so that any later access fails a pointer check). */
+static struct invoke_subroot_task *SUB; long g_sub_others, g_sub_mine; bool g_sub_freed; unsigned g_sub_deleted, g_spawn_f2, g_spawn_f3, g_finalized_with_others;
+long g_sub_mine_at_spawn2, g_sub_mine_at_spawn3;
+#define SUB_INV (g_sub_others >= 0 && g_sub_others <= 2 && g_sub_mine >= 0 && SUB->ref_count == (unsigned)(g_sub_others + g_sub_mine))
+static void interfere(void) { if (g_sub_mine >= 1) { long o = nondet_long(); __CPROVER_assume(o >= 0 && o <= g_sub_others); g_sub_others = o; SUB->ref_count = (unsigned)(g_sub_others + g_sub_mine); } }
+#define ASSERT_READ(x) (x)
+#define ATOMIC_LOAD_AT(site, x) ({ interfere(); (x); })
+#define ATOMIC_FETCH_ADD_AT(site, x, v) ({ interfere(); unsigned o_ = (x); (x) += (v); g_sub_mine += (v); __CPROVER_assert(SUB_INV, "guarantee: ref_count equals the number of unreleased parties, at " #site); o_; })
+#define ATOMIC_PREDEC_AT(site, x) ({ interfere(); OBLIGATION(g_sub_mine >= 1, "C05.invoke.subroot: a party releases the sub-root only once (it holds a counted reference)"); unsigned r_ = --(x); g_sub_mine--; \
+    __CPROVER_assert(SUB_INV, "guarantee: ref_count equals the number of unreleased parties, at " #site); \
+    if (g_sub_mine == 0 && g_sub_others > 0) { g_sub_freed = true; free(SUB); }   /* not the last: the others may delete the sub-root from now on */ \
+    r_; })
+static void delete_sub(struct invoke_subroot_task *self) {
+    OBLIGATION(self == SUB && !g_sub_freed && g_sub_deleted == 0, "C05.invoke.subroot: the sub-root is deleted once");
+    if (g_sub_others != 0 || g_sub_mine != 0) g_finalized_with_others++;
+    g_sub_deleted++; g_sub_freed = true; free(self);
+}
+#define DELETE_OBJECT(a, self, ed) delete_sub(self)
+static void spawn_(void *t, task_group_context *c) {
+    OBLIGATION(c == &C, "C05.invoke.subroot: children are spawned in the context of the parallel_invoke call");
+    OBLIGATION(t == (void *)&SUB->f2_invoker || t == (void *)&SUB->f3_invoker, "C05.invoke.subroot: the tasks spawned are the sub-root's own two invokers");
+    OBLIGATION(g_sub_mine >= 2, "C05.invoke.subroot: the count covers a child before the child becomes runnable (otherwise its release could delete the sub-root early, or twice)");
+    if (t == (void *)&SUB->f2_invoker) { g_spawn_f2++; g_sub_mine_at_spawn2 = g_sub_mine; } else { g_spawn_f3++; g_sub_mine_at_spawn3 = g_sub_mine; }
+    g_sub_mine--; g_sub_others++;                    /* that reference now belongs to the child */
+}
+#define SPAWN(t, c) spawn_((void *)&(t), &(c))
+#define EXECUTE_AND_WAIT(t, c1, w, c2) __CPROVER_assert(false, "not used by the sub-root")
+#include "invoke_invoker_s.inc"
+#include "invoke_subroot.inc"
+static Fn F1, F2, F3; size_t IN_base;
+static struct invoke_subroot_task *mk_sub(void) {
+    struct invoke_subroot_task *s = malloc(sizeof(struct invoke_subroot_task)); __CPROVER_assume(s != NULL);
+    SUB = s; g_sub_freed = false; g_sub_deleted = g_spawn_f2 = g_spawn_f3 = g_finalized_with_others = 0; g_sub_others = g_sub_mine = 0;
+    size_t b = IN_base = nondet_size_t(); __CPROVER_assume(b < ((size_t)1 << 62)); F1.idx = b; F2.idx = b + 1; F3.idx = b + 2;
+    small_object_allocator a; a.pool = nondet_ptr();
+    mk_root_wait(0);
+    invoke_subroot_task_ctor(s, &F1, &F2, &F3, &W, &C, &a);
+    return s;
+}
+void h_inv_subroot_ctor(void) {
+    struct invoke_subroot_task *s = mk_sub();
+    OBLIGATION(s->self_invoked_functor == &F1 && s->f2_invoker.my_function == &F2 && s->f3_invoker.my_function == &F3, "C05.invoke.subroot: the sub-root is bound to its three functions, one each (self, f2 invoker, f3 invoker)");
+    OBLIGATION(s->f2_invoker.parent_wait_ctx == s && s->f3_invoker.parent_wait_ctx == s, "C05.invoke.subroot: both invokers report completion to this sub-root");
+    OBLIGATION(s->ref_count == 0 && s->root_wait_ctx == &W && s->my_execution_context == &C, "C05.invoke.subroot: it starts with no counted parties, remembers the root wait context and the context");
+    OBLIGATION(g_mine == 1 && g_reserves == 1 && g_releases == 0, "C05.invoke.subroot: constructing the sub-root reserves one reference on the root wait context (before it can be spawned)");
+    VACUITY_END();
+}
+void h_inv_subroot_execute(void) {
+    struct invoke_subroot_task *s = mk_sub(); execution_data ed; ed.context = &C;
+    g_reserves = g_releases = 0;
+    task *r = invoke_subroot_task_execute(s, &ed);
+    OBLIGATION(g_fn_calls == 1 && g_last_idx == F1.idx, "C05.invoke.subroot: the sub-root calls its own (first) function exactly once");
+    OBLIGATION(g_spawn_f2 == 1 && g_spawn_f3 == 1, "C05.invoke.subroot: each of the two invokers is spawned exactly once");
+    OBLIGATION(g_sub_mine == 0, "C05.invoke.subroot: the sub-root gives up its own reference exactly once");
+    OBLIGATION(g_sub_others == 0 ? (g_sub_deleted == 1 && g_releases == 1 && g_mine == 0) : (g_sub_deleted == 0 && g_releases == 0),
+               "C05.invoke.subroot: the sub-root is finalized (root reference released once, object deleted once) by exactly the party whose release is the last one: never while a child is outstanding, and always when none is");
+    OBLIGATION(g_finalized_with_others == 0 && r == NULL && g_reserves == 0, "C05.invoke.subroot: no finalization while references are outstanding");
+    VACUITY_END();
+}
+void h_inv_subroot_child(void) {
+    struct invoke_subroot_task *s = mk_sub(); execution_data ed; ed.context = &C;
+    /* state after the sub-root's execute() has raised the count and spawned both children: this thread is one of the children, the other parties may or may not have released yet */
+    g_sub_mine = 1; g_sub_others = nondet_long(); __CPROVER_assume(g_sub_others >= 0 && g_sub_others <= 2); s->ref_count = (unsigned)(g_sub_others + g_sub_mine);
+    g_reserves = g_releases = 0;
+    bool second = nondet_bool(), cancel = nondet_bool();
+    struct function_invoker_s *me = second ? &s->f2_invoker : &s->f3_invoker;
+    task *r = cancel ? function_invoker_s_cancel(me, &ed) : function_invoker_s_execute(me, &ed);
+    if (!cancel) OBLIGATION(g_fn_calls == 1 && g_last_idx == (second ? F2.idx : F3.idx), "C05.invoke.invoker: a spawned invoker calls its own function exactly once");
+    else OBLIGATION(g_fn_calls == 0, "C05.invoke.invoker: a cancelled invoker does not call its function");
+    OBLIGATION(g_sub_mine == 0, "C05.invoke.invoker: executed or cancelled, the invoker releases its sub-root exactly once");
+    OBLIGATION(g_sub_others == 0 ? (g_sub_deleted == 1 && g_releases == 1 && g_mine == 0) : (g_sub_deleted == 0 && g_releases == 0),
+               "C05.invoke.subroot: the sub-root is finalized (root reference released once, object deleted once) by exactly the party whose release is the last one: never while a child is outstanding, and always when none is");
+    OBLIGATION(cancel || g_calls_at_release == 1 || g_releases == 0, "C05.invoke.invoker: completion is reported only after the function has returned");
+    OBLIGATION(g_finalized_with_others == 0 && r == NULL, "C05.invoke.subroot: no finalization while references are outstanding");
+    VACUITY_END();
+}
+void h_inv_subroot_cancel(void) {
+    struct invoke_subroot_task *s = mk_sub(); execution_data ed; ed.context = &C;
+    g_reserves = g_releases = 0;                     /* a task is either executed or cancelled: a cancelled sub-root has never raised its count nor spawned children */
+    task *r = invoke_subroot_task_cancel(s, &ed);
+    OBLIGATION(g_fn_calls == 0 && g_spawn_f2 == 0 && g_spawn_f3 == 0, "C05.invoke.subroot: a cancelled sub-root calls and spawns nothing");
+    OBLIGATION(g_sub_deleted == 1 && g_releases == 1 && g_mine == 0 && r == NULL, "C05.invoke.subroot: a cancelled sub-root still gives back its root reference once and deletes itself once");
+    VACUITY_END();
+}
+#endif /* INV_SUB */
+
+#ifdef INV_SEP
+/* ---------------------------------------------------------------- invoke_recursive_separation / parallel_invoke_impl */
+#ifndef SEP_N
+#define SEP_N 3
+#endif
+static Fn FN[4]; size_t g_base; unsigned g_started[4], g_started_total, g_waits, g_started_at_wait;
+static struct invoke_subroot_task *SUB; unsigned g_sub_allocs, g_sub_spawns, g_rest_calls; FN_PACK g_rest_pack; unsigned g_sub_spawns_at_rest;
+void invoke_subroot_task_ctor(struct invoke_subroot_task *self, const Fn *f1, const Fn *f2, const Fn *f3, wait_context *wait_ctx, task_group_context *context, small_object_allocator *alloc);
+#define NEW_subroot(a, f1, f2, f3, w, c, a2) ({ struct invoke_subroot_task *t_ = malloc(sizeof(struct invoke_subroot_task)); __CPROVER_assume(t_ != NULL); SUB = t_; g_sub_allocs++; invoke_subroot_task_ctor(t_, &(f1), &(f2), &(f3), &(w), &(c), &(a2)); t_; })
+static void start_invoker(struct function_invoker_r *inv) {
+    OBLIGATION(inv->parent_wait_ctx != NULL && inv->parent_wait_ctx->my_wait_context == &W, "C05.invoke.sep: every invoker reports completion to the root wait context of this call");
+    size_t j = inv->my_function->idx - g_base;
+    OBLIGATION(j < SEP_N, "C05.invoke.sep: the invoker started is bound to one of this call's functions");
+    if (j < 4) g_started[j]++;
+    g_started_total++;
+    OBLIGATION(g_mine >= 1, "C05.invoke.sep: the root count covers an invoker before it becomes runnable");
+    g_mine -= 1;                                     /* the reference travels with the started invoker */
+}
+static void spawn_(void *t, task_group_context *c) {
+    OBLIGATION(c == &C, "C05.invoke.sep: tasks are spawned in the context of the parallel_invoke call");
+    if (SUB != NULL && t == (void *)SUB) {
+        g_sub_spawns++;
+        OBLIGATION(g_mine >= 1, "C05.invoke.sep: the sub-root's reference on the root wait context exists before it is spawned");
+        g_mine -= 1;
+    } else start_invoker((struct function_invoker_r *)t);
+}
+#define SPAWN(t, c) spawn_((void *)&(t), &(c))
+static void execute_and_wait_(struct function_invoker_r *t, task_group_context *c1, wait_context *w, task_group_context *c2) {
+    OBLIGATION(w == &W && c1 == &C && c2 == &C, "C05.invoke.sep: the caller waits on the root wait context, in the call's context");
+    start_invoker(t); g_waits++; g_started_at_wait = g_started_total;
+    W.refs = 0; g_others = 0;                        /* the wait returns when the root count is zero: every started invoker and every sub-root of every level has finished */
+    OBLIGATION(g_mine == 0, "C05.invoke.sep: when the wait starts every reserved reference belongs to a started invoker (a left-over reference would block the wait for ever)");
+}
+#define EXECUTE_AND_WAIT(t, c1, w, c2) execute_and_wait_(&(t), &(c1), &(w), &(c2))
+#define DELETE_OBJECT(a, self, ed) ((void)0)
+#define ASSERT_READ(x) (x)
+#define ATOMIC_LOAD_AT(site, x) (x)
+#define ATOMIC_FETCH_ADD_AT(site, x, v) ((x) += (v))
+#define ATOMIC_PREDEC_AT(site, x) (--(x))
+static void sep_rest(wait_context *w, task_group_context *c, FN_PACK fs) {
+    OBLIGATION(w == &W && c == &C, "C05.invoke.sep: the rest of the pack is run against the same root wait context and context");
+    g_rest_calls++; g_rest_pack = fs; g_sub_spawns_at_rest = g_sub_spawns;
+}
+#define INVOKE_SEP_REST(w, c, fs) sep_rest(&(w), &(c), (fs))
+unsigned g_all_calls; FN_PACK g_all_pack; const Fn *g_all_extra; wait_context *g_all_w; task_group_context *g_all_c; long g_all_refs; int g_all_traits;
+static void sep_all(wait_context *w, task_group_context *c, FN_PACK fs, const Fn *extra) { g_all_calls++; g_all_pack = fs; g_all_extra = extra; g_all_w = w; g_all_c = c; g_all_refs = w->refs; g_all_traits = c->traits; }
+#define INVOKE_SEP_ALL(w, c, fs) sep_all(&(w), &(c), (fs), NULL)
+#define INVOKE_SEP_ALL_PLUS(w, c, fs, f) sep_all(&(w), &(c), (fs), &(f))
+#include "invoke_invoker_s.inc"
+#include "invoke_subroot.inc"
+#include "invoke_sep.inc"
+size_t IN_base, IN_n;
+static void mk_fns(void) {
+    mk_root_wait(0);
+    g_base = IN_base = nondet_size_t(); __CPROVER_assume(g_base < ((size_t)1 << 62));
+    for (unsigned j = 0; j < 4; ++j) { FN[j].idx = g_base + j; g_started[j] = 0; }
+    g_started_total = g_waits = g_sub_allocs = g_sub_spawns = g_rest_calls = g_all_calls = 0; SUB = NULL;
+}
+void h_inv_invoker_root(void) {
+    mk_fns(); execution_data ed; ed.context = &C;
+    mk_root_wait(1);                                 /* the reference reserved for this invoker by invoke_recursive_separation (jobs invoke.sep.*) */
+    struct invoke_root_task root; invoke_root_task_ctor(&root, &W);
+    struct function_invoker_r inv; function_invoker_r_ctor(&inv, &FN[0], &root);
+    OBLIGATION(root.my_wait_context == &W && inv.my_function == &FN[0] && inv.parent_wait_ctx == &root, "C05.invoke.invoker: the invoker is bound to its function and to the root wait object");
+    bool cancel = nondet_bool();
+    task *r = cancel ? function_invoker_r_cancel(&inv, &ed) : function_invoker_r_execute(&inv, &ed);
+    if (!cancel) OBLIGATION(g_fn_calls == 1 && g_last_idx == FN[0].idx && g_mine_at_call == 1 && g_calls_at_release == 1, "C05.invoke.invoker: the invoker calls its own function exactly once, while its reference is held, and reports completion afterwards");
+    else OBLIGATION(g_fn_calls == 0, "C05.invoke.invoker: a cancelled invoker does not call its function");
+    OBLIGATION(g_releases == 1 && g_mine == 0 && g_reserves == 0 && r == NULL, "C05.invoke.invoker: executed or cancelled, the invoker releases the root wait context exactly once");
+    VACUITY_END();
+}
+void h_inv_sep(void) {
+    mk_fns();
+#if SEP_N == 1
+    invoke_sep_1(&W, &C, &FN[0]);
+#elif SEP_N == 2
+    invoke_sep_2(&W, &C, &FN[0], &FN[1]);
+#else
+    invoke_sep_3(&W, &C, &FN[0], &FN[1], &FN[2]);
+#endif
+    for (unsigned j = 0; j < 4; ++j)
+        OBLIGATION(g_started[j] == (j < SEP_N ? 1 : 0), "C05.invoke.sep: each of the N functions gets exactly one invoker started (spawned, or run by the caller itself); nothing else is started");
+    OBLIGATION(g_reserves == 1 && g_releases == 0 && g_mine == 0, "C05.invoke.sep: exactly N references are reserved, before the first invoker becomes runnable, one per function");
+    OBLIGATION(g_waits == 1 && g_started_at_wait == SEP_N, "C05.invoke.sep: the caller waits once, after all invokers were started: the invokers (locals of this function) are finished before it returns");
+    VACUITY_END();
+}
+void h_inv_sep_n(void) {
+    mk_fns();
+    FN_PACK rest; rest.base = g_base + 3; rest.n = IN_n = nondet_size_t(); __CPROVER_assume(rest.n >= 1 && rest.n < ((size_t)1 << 61));
+    invoke_sep_n(&W, &C, &FN[0], &FN[1], &FN[2], rest);
+    OBLIGATION(g_sub_allocs == 1 && g_sub_spawns == 1, "C05.invoke.sep: the first three functions go to exactly one sub-root task, spawned once");
+    OBLIGATION(SUB->self_invoked_functor == &FN[0] && SUB->f2_invoker.my_function == &FN[1] && SUB->f3_invoker.my_function == &FN[2] && SUB->root_wait_ctx == &W && SUB->my_execution_context == &C,
+               "C05.invoke.sep: that sub-root is bound to f1, f2 and f3 (one each), to the root wait context and the context");
+    OBLIGATION(g_rest_calls == 1 && g_rest_pack.base == rest.base && g_rest_pack.n == rest.n, "C05.invoke.sep: the remaining functions are passed on unchanged, once (none dropped, none repeated, none of f1..f3 again)");
+    OBLIGATION(g_sub_spawns_at_rest == 1, "C05.invoke.sep: the sub-root is runnable before the blocking wait of the rest starts (it holds a root reference: the wait could never end otherwise)");
+    OBLIGATION(g_reserves == 1 && g_releases == 0 && g_mine == 0 && g_started_total == 0, "C05.invoke.sep: one root reference is reserved for the sub-root before it is spawned; the functions themselves are not started here");
+    VACUITY_END();
+}
+void h_inv_impl(void) {
+    mk_fns(); g_plain_wait = true;
+    FN_PACK fs; fs.base = g_base + 1; fs.n = IN_n = nondet_size_t();
+    bool own = nondet_bool();
+    if (own) { __CPROVER_assume(fs.n >= 1); parallel_invoke_impl_own(&FN[0], fs); }        /* parallel_invoke(f_1..f_N) arrives as (f_N, f_1..f_N-1): invoke_helper rotates the last argument to the front */
+    else { __CPROVER_assume(fs.n >= 2); parallel_invoke_impl_ctx(&C, fs); }
+    OBLIGATION(g_all_calls == 1 && g_all_pack.base == fs.base && g_all_pack.n == fs.n && g_all_extra == (own ? &FN[0] : NULL), "C05.invoke.impl: every function of the call (and nothing else) is passed on to invoke_recursive_separation, once");
+    OBLIGATION(g_all_refs == 0, "C05.invoke.impl: the root wait context starts at zero");
+    OBLIGATION(own ? (g_all_c != NULL && g_all_traits == PARALLEL_INVOKE) : g_all_c == &C, "C05.invoke.impl: the functions run in the user's context if one was given, else in a fresh one");
+    VACUITY_END();
+}
+#endif /* INV_SEP */
+#endif /* INVOKE */
+
+#ifdef AFF
+/* ================================================================== partitioner.h: constructor chains of the partition types, affinity map, check_being_stolen
+   struct part is the flattened hierarchy adaptive_mode < proportional_mode < linear_affinity_mode < dynamic_grainsize_mode < affinity_partition_type (auto: adaptive_mode < dynamic_grainsize_mode;
+   static: ... < linear_affinity_mode); base-class initialisers are the INIT_<class>_<base>_{0,s,p} macros, bound per job to the sliced base constructors. */
+typedef void task;
+typedef unsigned short slot_id;
+#define no_slot ((slot_id)~0)
+typedef struct task_group_context { int id; } task_group_context;
+typedef struct execution_data { task_group_context *context; } execution_data;
+struct part { size_t my_divisor; int my_delay; depth_t my_max_depth; size_t my_head; size_t my_max_affinity; slot_id *my_array; };
+struct affinity_partitioner_base { slot_id *my_array; size_t my_size; };
+struct tree_node_ { int m_ref_count; bool m_child_stolen; bool is_wait_node; };
+struct start_task { struct tree_node_ *my_parent; };
+#include "part_consts.inc"
+#undef PART_FACTOR
+#if defined(KIND_AFFINITY)
+#define PART_FACTOR AFFINITY_FACTOR
+#else
+#define PART_FACTOR 1u
+#endif
+int g_P, g_tid; size_t g_k;
+static int STUB_max_concurrency(void) { return g_P; }                 /* trusted: constant while one partition object is built, >= 1 */
+static int STUB_current_thread_index(void) { return g_tid; }          /* trusted: not_initialized, or the caller's slot index < max_concurrency() */
+static bool STUB_is_peer_stolen(void) { return nondet_bool(); }
+unsigned g_allocs, g_frees, g_fills; size_t g_alloc_bytes, g_fill_n; slot_id g_fill_val; void *g_freed, *g_fill_arr;
+static void *STUB_cache_aligned_allocate(size_t n) { g_allocs++; g_alloc_bytes = n; void *p = malloc(n); __CPROVER_assume(p != NULL); return p; }
+static void STUB_cache_aligned_deallocate(void *p) { g_frees++; g_freed = p; free(p); }
+static void STUB_fill_n(slot_id *a, size_t n, slot_id v) { g_fills++; g_fill_arr = a; g_fill_n = n; g_fill_val = v; if (g_k < n) a[g_k] = v; }   /* std::fill_n, stated for the arbitrary index g_k */
+static void mk_part(struct part *p) { p->my_divisor = nondet_size_t(); p->my_max_depth = nondet_uchar(); p->my_delay = nondet_int(); p->my_head = nondet_size_t(); p->my_max_affinity = nondet_size_t(); p->my_array = NULL; }
+#include "partitioner_fns.inc"
+#define INIT_am_my_divisor_1(s, e) ((s)->my_divisor = (e))
+#define INIT_pm_adaptive_mode_0(s) adaptive_ctor_0(s)
+#define INIT_pm_adaptive_mode_s(s, src) adaptive_ctor_s((s), &(src))
+#define INIT_pm_adaptive_mode_p(s, src, so) adaptive_ctor_p((s), &(src), &(so))
+#define INIT_la_proportional_mode_0(s) proportional_ctor_0(s)
+#define INIT_la_proportional_mode_s(s, src) proportional_ctor_s((s), &(src))
+#define INIT_la_proportional_mode_p(s, src, so) proportional_ctor_p((s), &(src), &(so))
+#define INIT_la_my_head_1(s, e) ((s)->my_head = (e))
+#define INIT_la_my_max_affinity_1(s, e) ((s)->my_max_affinity = (e))
+#if defined(KIND_AUTO)
+#define INIT_dg_Mode_0(s) adaptive_ctor_0(s)
+#define INIT_dg_Mode_s(s, src) adaptive_ctor_s((s), &(src))
+#define INIT_dg_Mode_p(s, src, so) adaptive_ctor_p((s), &(src), &(so))
+#else
+#define INIT_dg_Mode_0(s) linear_ctor_0(s)
+#define INIT_dg_Mode_s(s, src) linear_ctor_s((s), &(src))
+#define INIT_dg_Mode_p(s, src, so) linear_ctor_p((s), &(src), &(so))
+#endif
+#define INIT_dg_my_delay_1(s, e) ((s)->my_delay = (e))
+#define INIT_dg_my_max_depth_1(s, e) ((s)->my_max_depth = (e))
+#define INIT_ap_dynamic_grainsize_mode_0(s) dyn_ctor_0(s)
+#define INIT_ap_dynamic_grainsize_mode_s(s, src) dyn_ctor_s((s), &(src))
+#define INIT_ap_dynamic_grainsize_mode_p(s, src, so) dyn_ctor_p((s), &(src), &(so))
+#define INIT_ap_my_array_1(s, e) ((s)->my_array = (e))
+#define INIT_au_dynamic_grainsize_mode_0(s) dyn_ctor_0(s)
+#define INIT_au_dynamic_grainsize_mode_s(s, src) dyn_ctor_s((s), &(src))
+#define INIT_st_linear_affinity_mode_0(s) linear_ctor_0(s)
+#define INIT_st_linear_affinity_mode_p(s, src, so) linear_ctor_p((s), &(src), &(so))
+unsigned g_spawn_aff, g_spawn_any; slot_id g_spawn_slot; task *g_spawn_t; task_group_context *g_spawn_c;
+#define SPAWN_AFF(t, c, id) (g_spawn_aff++, g_spawn_t = (t), g_spawn_c = (c), g_spawn_slot = (id))
+#define SPAWN_ANY(t, c) (g_spawn_any++, g_spawn_t = (t), g_spawn_c = (c))
+bool g_stolen; unsigned g_marks; struct start_task *g_mark_t;
+static bool STUB_is_stolen_task(const execution_data *ed) { return g_stolen; }
+static void STUB_mark_task_stolen(struct start_task *t) { g_marks++; g_mark_t = t;
+    OBLIGATION(!t->my_parent->is_wait_node, "C05.part.stolen: mark_task_stolen casts the parent to tree_node: it is only applied to a task whose parent really is a tree node (never the root task under its wait node)"); }
+#define ATOMIC_LOAD(x) (x)
+#include "part_ctors.inc"
+#define AMAX ((size_t)1 << 16)
+/* representation invariant of a linear-affinity partition object: its window of reserved map indices is [head, head+divisor) (mod max_affinity) */
+#define INV_LIN(p) ((p)->my_max_affinity >= 1 && (p)->my_max_affinity <= AMAX && (p)->my_head < (p)->my_max_affinity && (p)->my_divisor <= (p)->my_max_affinity)
+#define MULT(p) ((p)->my_divisor % PART_FACTOR == 0)          /* holds for the root and along proportional splits; a demand split (halving) ends it, see the assumptions */
+static void mk_P(void) { g_P = nondet_int(); __CPROVER_assume(g_P >= 1 && g_P <= 4096); g_tid = nondet_int(); __CPROVER_assume(g_tid == TASK_ARENA_not_initialized || (g_tid >= 0 && g_tid < g_P)); g_k = nondet_size_t();
+    g_allocs = g_frees = g_fills = g_spawn_aff = g_spawn_any = g_marks = 0; }
+int IN_P, IN_tid; size_t IN_div, IN_head, IN_max;
+#if defined(KIND_AFFINITY)
+void h_aff_ctor(void) {
+    mk_P(); IN_P = g_P; IN_tid = g_tid;
+    struct affinity_partitioner_base ap; size_t old = nondet_size_t(); __CPROVER_assume(old <= AMAX);          /* the partitioner object is reused across loops, possibly in arenas of different size */
+    slot_id seen = nondet_ushort();
+    if (old == 0) { ap.my_array = NULL; ap.my_size = 0; } else { ap.my_array = malloc(old * sizeof(slot_id)); __CPROVER_assume(ap.my_array != NULL); ap.my_size = old; if (g_k < old) ap.my_array[g_k] = seen; }
+    slot_id *old_arr = ap.my_array;
+    struct part self; mk_part(&self);
+    affinity_ctor_0(&self, &ap);
+    size_t want = (size_t)AFFINITY_FACTOR * (size_t)g_P;
+    size_t entries = g_allocs ? g_alloc_bytes / sizeof(slot_id) : old;                  /* allocated length of the map the partitioner now points to */
+    OBLIGATION(g_allocs <= 1 && ap.my_array != NULL && (g_allocs ? (g_frees == (old ? 1 : 0) && (!old || g_freed == (void *)old_arr)) : (g_frees == 0 && ap.my_array == old_arr)),
+               "C05.aff.ctor: the map is either kept, or replaced by one fresh allocation after the old one was freed exactly once");
+    OBLIGATION(ap.my_size == entries && entries >= want, "C05.aff.ctor: my_size is the allocated number of entries, at least factor * max_concurrency");
+    if (g_allocs) OBLIGATION(g_fills == 1 && g_fill_arr == (void *)ap.my_array && g_fill_n == entries && g_fill_val == no_slot, "C05.aff.ctor: every entry of a fresh map is initialised (no_slot)");
+    else OBLIGATION(g_k >= old || ap.my_array[g_k] == seen, "C05.aff.ctor: a map that is kept keeps its contents");
+    OBLIGATION(self.my_array == ap.my_array && self.my_max_affinity <= ap.my_size, "C05.aff.ctor: the partition object indexes the map it was given, and its index space my_max_affinity lies inside the map");
+    OBLIGATION(self.my_divisor == self.my_max_affinity && self.my_divisor / PART_FACTOR >= 1 && INV_LIN(&self) && MULT(&self), "C05.aff.ctor: the root object owns its whole index space (a multiple of factor, at least one group), its head lies inside it");
+    OBLIGATION(self.my_max_depth < __TBB_RANGE_POOL_CAPACITY && self.my_delay >= DELAY_begin && self.my_delay <= DELAY_pass, "C05.aff.ctor: the initial depth budget is below the pool capacity; the delay phase is a legal one");
+    VACUITY_END();
+}
+static void mk_lin(struct part *p) {                   /* an arbitrary affinity partition object with its map */
+    mk_P(); mk_part(p);
+    __CPROVER_assume(INV_LIN(p) && p->my_delay >= DELAY_begin && p->my_delay <= DELAY_pass);
+    p->my_array = malloc(p->my_max_affinity * sizeof(slot_id)); __CPROVER_assume(p->my_array != NULL);
+    IN_div = p->my_divisor; IN_head = p->my_head; IN_max = p->my_max_affinity;
+}
+void h_aff_split(void) {
+    struct part par, c; mk_lin(&par); mk_part(&c);
+    size_t d = par.my_divisor, h = par.my_head, m = par.my_max_affinity; depth_t dep = par.my_max_depth; slot_id *arr = par.my_array;
+    bool prop = nondet_bool();
+    if (prop) {
+        __CPROVER_assume(proportional_is_divisible(&par) && MULT(&par));          /* execute() only splits while the partition is divisible */
+        struct proportional_split so = proportional_get_split(&par);
+        affinity_ctor_p(&c, &par, &so);
+        OBLIGATION(c.my_divisor + par.my_divisor == d && c.my_divisor >= PART_FACTOR && par.my_divisor >= PART_FACTOR, "C05.aff.split: a proportional split hands over part of the reserved indices and conserves their number; both sides keep at least one slot group");
+        OBLIGATION(MULT(&c) && MULT(&par), "C05.aff.split: along proportional splits the number of reserved indices stays a multiple of factor");
+    } else {
+        affinity_ctor_s(&c, &par);
+        OBLIGATION(c.my_divisor == d / 2 && par.my_divisor == d / 2, "C05.aff.split: a demand split halves the reserved indices on both sides (a task with one index keeps none and hands none over)");
+    }
+    OBLIGATION(par.my_head == h && c.my_head == (h + par.my_divisor) % m, "C05.aff.split: the child's window of map indices starts right behind what the parent keeps: windows [head, head+divisor) do not overlap");
+    OBLIGATION(c.my_max_affinity == m && par.my_max_affinity == m && c.my_array == arr && par.my_array == arr && c.my_max_depth == dep, "C05.aff.split: the child shares the map and its size, and inherits the depth budget");
+    OBLIGATION(INV_LIN(&c) && INV_LIN(&par), "C05.aff.split: on both sides head stays inside the map and divisor within its size (head + divisor does not overflow)");
+    VACUITY_END();
+}
+void h_aff_note(void) {
+    struct part p; mk_lin(&p);
+    slot_id id = nondet_ushort(), seen = nondet_ushort();
+    if (g_k < p.my_max_affinity) p.my_array[g_k] = seen;
+    affinity_note_affinity(&p, id);                    /* CBMC's bounds check covers my_array[my_head] */
+    OBLIGATION(g_k >= p.my_max_affinity || g_k == p.my_head || p.my_array[g_k] == seen, "C05.aff.note: note_affinity touches no map entry other than the object's own one (index my_head, inside the map)");
+    task *t = nondet_ptr(); task_group_context c;
+    affinity_spawn_task(&p, t, &c);                    /* bounds check covers the read of my_array[my_head] */
+    OBLIGATION(g_spawn_aff + g_spawn_any == 1 && g_spawn_t == t && g_spawn_c == &c, "C05.aff.spawn: spawn_task spawns the given task exactly once, in the given context, whatever the affinity hint");
+    VACUITY_END();
+}
+#endif
+#if defined(KIND_AUTO)
+void h_auto_ctor(void) {
+    mk_P(); IN_P = g_P; struct part self, c; mk_part(&self); mk_part(&c);
+    auto_ctor_0(&self);
+    OBLIGATION(self.my_divisor >= 1 && self.my_delay >= DELAY_begin && self.my_delay <= DELAY_pass && self.my_max_depth < __TBB_RANGE_POOL_CAPACITY, "C05.auto.ctor: the root object starts with at least one division (it is never taken for a stolen leaf), a legal delay phase and a depth budget below the pool capacity");
+    self.my_divisor = IN_div = nondet_size_t(); self.my_max_depth = nondet_uchar(); size_t d = self.my_divisor; depth_t dep = self.my_max_depth;
+    auto_ctor_s(&c, &self);
+    OBLIGATION(c.my_divisor == d / 2 && self.my_divisor == d / 2 && c.my_max_depth == dep && self.my_max_depth == dep, "C05.auto.split: a split halves the divisor on both sides; the child gets the parent's depth budget (align_depth subtracts the offered depth from it)");
+    VACUITY_END();
+}
+#endif
+#if defined(KIND_STATIC)
+void h_static_ctor(void) {
+    mk_P(); IN_P = g_P; IN_tid = g_tid; struct part self, c; mk_part(&self); mk_part(&c);
+    static_ctor_0(&self);
+    OBLIGATION(self.my_divisor == self.my_max_affinity && self.my_divisor >= 1 && INV_LIN(&self), "C05.static.ctor: the root object owns its whole index space (at least one division), its head lies inside it");
+    mk_part(&self); __CPROVER_assume(INV_LIN(&self) && MULT(&self) && proportional_is_divisible(&self));
+    size_t d = IN_div = self.my_divisor, h = IN_head = self.my_head, m = IN_max = self.my_max_affinity;
+    struct proportional_split so = proportional_get_split(&self);
+    static_ctor_p(&c, &self, &so);
+    OBLIGATION(c.my_divisor + self.my_divisor == d && c.my_divisor >= 1 && self.my_divisor >= 1, "C05.static.split: the split conserves the number of divisions and leaves at least one on each side");
+    OBLIGATION(self.my_head == h && c.my_head == (h + self.my_divisor) % m && c.my_max_affinity == m && INV_LIN(&c) && INV_LIN(&self), "C05.static.split: the child's slots start right behind the parent's; both stay inside [0, max_affinity)");
+    task *t = nondet_ptr(); task_group_context cx; size_t cd = c.my_divisor;
+    linear_spawn_task(&c, t, &cx);
+    OBLIGATION(g_spawn_aff + g_spawn_any == 1 && g_spawn_t == t && g_spawn_c == &cx && g_spawn_aff == (cd != 0 ? 1 : 0), "C05.static.spawn: spawn_task spawns the given task exactly once");
+    VACUITY_END();
+}
+#endif
+#if !defined(KIND_STATIC)
+void h_check_being_stolen(void) {
+    mk_P(); struct part p; mk_part(&p); execution_data ed; struct tree_node_ par; struct start_task t; t.my_parent = &par;
+    par.is_wait_node = nondet_bool(); par.m_ref_count = nondet_int(); par.m_child_stolen = false;
+    __CPROVER_assume(par.m_ref_count >= 1 && (!par.is_wait_node || par.m_ref_count == 1));       /* wait_node(): node{nullptr, 1}; tree nodes start at 2 and only count down (job sfor.offer_work, C06 fold_tree) */
+    g_stolen = nondet_bool(); __CPROVER_assume(!(par.is_wait_node && g_stolen) || true);
+    size_t d = IN_div = p.my_divisor; depth_t dep = p.my_max_depth;
+    __CPROVER_assume(dep <= 253);                      /* listed assumption: the 8-bit depth budget does not wrap */
+    bool r = dyn_check_being_stolen(&p, &t, &ed);
+    OBLIGATION(p.my_divisor == d || d / PART_FACTOR == 0, "C05.part.stolen: check_being_stolen leaves the divisor of a task that still has divisions alone");
+    OBLIGATION(g_marks <= 1 && (g_marks == 0 || (g_stolen && !par.is_wait_node)), "C05.part.stolen: only a task that really runs on another thread marks its parent, and the parent marked is a tree node (the root task, whose parent is the wait node, never does)");
+    OBLIGATION(p.my_max_depth >= dep && (!r || p.my_max_depth > dep), "C05.part.stolen: the depth budget never shrinks or wraps; a task reported as stolen gets a larger one");
+    VACUITY_END();
+}
+#endif
+#endif /* AFF */
+
+#ifdef NDR
+/* ================================================================== blocked_nd_range.h (N = ND_N dimensions of blocked_range<size_t>) */
+#ifndef ND_N
+#define ND_N 3
+#endif
+struct blocked_nd_range { struct blocked_range my_dims[ND_N]; };
+#define ARR_BEGIN(a) (&(a)[0])
+#define ARR_END(a) (&(a)[0] + ND_N)
+#define INIT_nd_my_dims_1(s, src) do { for (unsigned i_ = 0; i_ < ND_N; ++i_) (s)->my_dims[i_] = (src)[i_]; } while (0)      /* std::array copy */
+#define SPLIT_T int
+#ifdef ND_SMALL
+#define ND_SUFFIX " (bounded)"
+#else
+#define ND_SUFFIX ""
+#endif
+/* models of the two standard algorithms (trusted: any_of = "some element satisfies"; max_element = the first of the greatest elements, libstdc++'s loop) */
+static bool STD_any_of(struct blocked_range *first, struct blocked_range *last, bool (*pred)(struct blocked_range *)) { for (; first != last; ++first) if (pred(first)) return true; return false; }
+static bool STD_all_of(struct blocked_range *first, struct blocked_range *last, bool (*pred)(struct blocked_range *)) { for (; first != last; ++first) if (!pred(first)) return false; return true; }
+static bool STD_none_of(struct blocked_range *first, struct blocked_range *last, bool (*pred)(struct blocked_range *)) { return !STD_any_of(first, last, pred); }
+#ifdef ND_ANY_CHOICE
+/* structure jobs: whatever element the comparison selects (any comparator) */
+static struct blocked_range *STD_max_element(struct blocked_range *first, struct blocked_range *last, bool (*comp)(struct blocked_range *, struct blocked_range *)) {
+    unsigned k = nondet_unsigned(); __CPROVER_assume(k < ND_N); return first + k; }
+#else
+static struct blocked_range *STD_max_element(struct blocked_range *first, struct blocked_range *last, bool (*comp)(struct blocked_range *, struct blocked_range *)) {
+    if (first == last) return last;
+    struct blocked_range *result = first;
+    while (++first != last) if (comp(result, first)) result = first;
+    return result;
+}
+#endif
+static struct blocked_nd_range *g_nd_r; unsigned g_dim_calls, g_dim_k; bool g_dim_bad;
+static Value dim_do_split(struct blocked_range *dim, int how) {
+    g_dim_calls++; g_dim_k = (unsigned)(dim - g_nd_r->my_dims);
+#ifndef ND_ANY_CHOICE
+    OBLIGATION(blocked_range_is_divisible(dim), "C05.nd: the dimension handed to do_split is itself divisible" ND_SUFFIX);      /* == the in-code assertion of blocked_range::do_split */
+#endif
+    __CPROVER_assume(blocked_range_is_divisible(dim));                  /* structure jobs: for every choice of a divisible dimension (that the choice is divisible is the job nd.dim.*) */
+    if (how == 0) return blocked_range_do_split_s(dim);
+    /* contract of blocked_range::do_split(r, proportional_split&) (job br.propsplit): the split point lies strictly inside */
+    Value m = nondet_size_t(); __CPROVER_assume(dim->my_begin < m && m < dim->my_end); dim->my_end = m; return m;
+}
+#define DIM_DO_SPLIT(dim, s) dim_do_split((dim), (s))
+#include "nd_range.inc"
+size_t IN_db[4], IN_de[4], IN_dg[4];
+static void mk_nd(struct blocked_nd_range *x) {
+    for (unsigned j = 0; j < ND_N; ++j) {
+        Value b = IN_db[j] = nondet_size_t(), e = IN_de[j] = nondet_size_t(); size_t g = IN_dg[j] = nondet_size_t();
+        __CPROVER_assume(b <= e && g > 0);
+        blocked_range_ctor(&x->my_dims[j], b, e, g);
+    }
+}
+void h_nd_any_of(void) {
+    struct blocked_nd_range x; mk_nd(&x);
+    bool d = false, em = false;
+    for (unsigned j = 0; j < ND_N; ++j) { d = d || (x.my_dims[j].my_grainsize < x.my_dims[j].my_end - x.my_dims[j].my_begin); em = em || !(x.my_dims[j].my_begin < x.my_dims[j].my_end); }
+    OBLIGATION(blocked_nd_range_is_divisible(&x) == d, "C05.nd: an N-dimensional range is divisible iff at least one of its dimensions is");
+    OBLIGATION(blocked_nd_range_empty(&x) == em, "C05.nd: an N-dimensional range is empty iff at least one of its dimensions is");
+    VACUITY_END();
+}
+void h_nd_split(void) {
+    struct blocked_nd_range r, r0, n; mk_nd(&r);
+    __CPROVER_assume(blocked_nd_range_is_divisible(&r));
+    r0 = r; g_nd_r = &r; g_dim_calls = 0; g_dim_bad = false;
+    int how = nondet_bool() ? 1 : 0;
+    if (how) blocked_nd_range_ctor_p(&n, &r, how); else blocked_nd_range_ctor_s(&n, &r, how);
+    OBLIGATION(g_dim_calls == 1 && g_dim_k < ND_N, "C05.nd: exactly one dimension is split");
+    unsigned k = g_dim_k;
+    for (unsigned j = 0; j < ND_N; ++j) {
+        if (j != k) OBLIGATION(r.my_dims[j].my_begin == r0.my_dims[j].my_begin && r.my_dims[j].my_end == r0.my_dims[j].my_end && n.my_dims[j].my_begin == r0.my_dims[j].my_begin && n.my_dims[j].my_end == r0.my_dims[j].my_end,
+                               "C05.nd: both halves keep every other dimension whole");
+        else OBLIGATION(r.my_dims[j].my_begin == r0.my_dims[j].my_begin && n.my_dims[j].my_end == r0.my_dims[j].my_end && r.my_dims[j].my_end == n.my_dims[j].my_begin
+                        && r.my_dims[j].my_begin < r.my_dims[j].my_end && n.my_dims[j].my_begin < n.my_dims[j].my_end,
+                        "C05.nd: in the split dimension the two halves are adjacent, non-empty and cover the parent's extent: the halves are disjoint and tile the parent (the new range gets the very dimension that was cut off the old one)");
+        OBLIGATION(r.my_dims[j].my_grainsize == r0.my_dims[j].my_grainsize && n.my_dims[j].my_grainsize == r0.my_dims[j].my_grainsize, "C05.nd: grainsizes are inherited by both halves");
+    }
+    VACUITY_END();
+}
+void h_nd_dim(void) {
+    struct blocked_nd_range r, n; mk_nd(&r);
+    __CPROVER_assume(blocked_nd_range_is_divisible(&r));
+#ifdef ND_SMALL
+    for (unsigned j = 0; j < ND_N; ++j) __CPROVER_assume(IN_de[j] - IN_db[j] <= ND_SMALL && IN_dg[j] <= ND_SMALL);
+#endif
+    g_nd_r = &r; g_dim_calls = 0; g_dim_bad = false;
+    blocked_nd_range_ctor_s(&n, &r, 0);
+    OBLIGATION(g_dim_calls == 1, "C05.nd: exactly one dimension is split" ND_SUFFIX);
+    VACUITY_END();
+}
+#endif /* NDR */
+
+#ifdef SFOR
+/* ================================================================== parallel_for.h: struct start_for (the task of parallel_for) + node / tree_node / wait_node constructors.
+   Range, Body and the partition object are opaque here (identity only): splitting a blocked_range is br.*, nd.*; the partition constructors are aff.*; what the partitioner does with
+   run_body / offer_work is exec.*, wb.*; fold_tree (join-tree unwinding, release of the wait) is proved under C06 (job reduce.fold_tree). */
+typedef void task;
+typedef struct Range { size_t id; } Range;
+typedef struct Body { int id; } Body;
+typedef struct small_object_allocator { void *pool; } small_object_allocator;
+typedef struct split_type { int d; } split_type; typedef unsigned short slot_id;
+typedef struct Partition { int divisor; int tag; } Partition; typedef struct Partitioner { int d; } Partitioner;
+typedef struct task_group_context { int traits; } task_group_context;
+typedef struct execution_data { task_group_context *context; } execution_data;
+typedef struct wait_context { int refs; } wait_context;
+typedef struct node { struct node *my_parent; int m_ref_count; small_object_allocator m_allocator; bool m_child_stolen; wait_context m_wait; } node;
+typedef node wait_node; typedef node tree_node;
+struct start_for { Range my_range; Body my_body; node *my_parent; Partition my_partition; small_object_allocator my_allocator; };
+static split_type g_split_tag;
+#define SPLIT_TAG g_split_tag
+#define PARALLEL_FOR 5
+#define ALLOCATOR_INIT(a) ((a).pool = NULL)
+#define CONTEXT_CTOR(c, t) ((c).traits = (t))
+#define INIT_n_my_parent_1(s, e) ((s)->my_parent = (e))
+#define INIT_n_m_ref_count_1(s, e) ((s)->m_ref_count = (e))
+#define INIT_n_node_2(s, p, r) node_ctor((s), (p), (r))
+#define INIT_n_m_allocator_1(s, a) ((s)->m_allocator = (a))
+#define INIT_n_m_child_stolen_1(s, e) ((s)->m_child_stolen = (e))
+#define INIT_n_m_wait_1(s, e) ((s)->m_wait.refs = (e))
+#define INIT_sf_my_range_1(s, r) Range_copy_ctor(&(s)->my_range, &(r))
+#define INIT_sf_my_range_2(s, r, so) Range_split_ctor(&(s)->my_range, &(r), (so))
+#define INIT_sf_my_body_1(s, b) Body_copy_ctor(&(s)->my_body, &(b))
+#define INIT_sf_my_parent_1(s, e) ((s)->my_parent = (e))
+#define INIT_sf_my_partition_1(s, p) Partition_ctor(&(s)->my_partition, &(p))
+#define INIT_sf_my_partition_2(s, p, so) Partition_split_ctor(&(s)->my_partition, &(p), &(so))
+#define INIT_sf_my_allocator_1(s, a) ((s)->my_allocator = (a))
+#define STUB_get_range_split_object(so) (&(so))
+int g_rcopies, g_rsplits, g_bcopies, g_psplits, g_pctors, g_aligns; Range *g_rsplit_dst, *g_rsplit_src, *g_rcopy_dst; const Range *g_rcopy_src; const Body *g_bcopy_src; Body *g_bcopy_dst; void *g_rsplit_obj, *g_psplit_obj; Partition *g_psplit_dst, *g_psplit_src, *g_align_p; unsigned char g_align_d;
+static void Range_copy_ctor(Range *dst, const Range *src) { g_rcopies++; g_rcopy_dst = dst; g_rcopy_src = src; dst->id = src->id; }
+static void Range_split_ctor(Range *dst, Range *src, void *so) { g_rsplits++; g_rsplit_dst = dst; g_rsplit_src = src; g_rsplit_obj = so; dst->id = nondet_size_t(); src->id = nondet_size_t(); }      /* Range(r, split): *dst = the right part, *src shrinks to the left part */
+static bool range_empty_(const Range *r) { return r->id == 0; }
+#define Range_empty(r) range_empty_(&(r))
+static void Body_copy_ctor(Body *dst, const Body *src) { g_bcopies++; g_bcopy_dst = dst; g_bcopy_src = src; dst->id = src->id; }
+static void Partition_ctor(Partition *dst, Partitioner *p) { g_pctors++; dst->divisor = nondet_int(); dst->tag = 0; }
+static void Partition_split_ctor(Partition *dst, Partition *src, split_type *so) { g_psplits++; g_psplit_dst = dst; g_psplit_src = src; g_psplit_obj = so; dst->divisor = nondet_int(); src->divisor = nondet_int(); }
+static void Partition_align_depth(Partition *p, unsigned char d) { g_aligns++; g_align_p = p; g_align_d = d; }
+int g_notes, g_stolen_checks, g_pexec, g_dtor, g_folds, g_deallocs, g_spawns, g_waits, g_run4s, g_task_allocs, g_node_allocs, g_body_calls; bool g_same_aff; slot_id g_slot, g_note_slot; node *g_parent_at_exit; void *g_pool0;
+static struct start_for g_new_task; static node g_new_node;
+static struct start_for T; static node P, P2; static Range g_r; static Body g_body; static Partitioner g_partitioner; static task_group_context g_ctx;
+static struct start_for *alloc_task(small_object_allocator *a) { g_task_allocs++; return &g_new_task; }
+static node *alloc_node(small_object_allocator *a) { g_node_allocs++; return &g_new_node; }
+void node_ctor(struct node *self, struct node *parent, int ref_count);
+void tree_node_ctor(struct node *self, struct node *parent, int ref_count, small_object_allocator *alloc);
+void wait_node_ctor(struct node *self);
+void start_for_ctor_root(struct start_for *self, const Range *range, const Body *body, Partitioner *partitioner, small_object_allocator *alloc);
+void start_for_ctor_split(struct start_for *self, struct start_for *parent_, split_type *split_obj, small_object_allocator *alloc);
+void start_for_ctor_demand(struct start_for *self, struct start_for *parent_, const Range *r, unsigned char d, small_object_allocator *alloc);
+#define WAIT_NODE_CTOR(w) wait_node_ctor(&(w))
+#define NEW_start_for_root(a, r, b, p, a2) ({ struct start_for *t_ = alloc_task(&(a)); start_for_ctor_root(t_, &(r), &(b), &(p), &(a2)); t_; })
+#define NEW_start_for_split(a, ed, par, so, a2) ({ struct start_for *t_ = alloc_task(&(a)); start_for_ctor_split(t_, &(par), &(so), &(a2)); t_; })
+#define NEW_start_for_demand(a, ed, par, r, d, a2) ({ struct start_for *t_ = alloc_task(&(a)); start_for_ctor_demand(t_, &(par), &(r), (d), &(a2)); t_; })
+#define NEW_tree_node(a, ed, parent, rc, a2) ({ node *n_ = alloc_node(&(a)); tree_node_ctor(n_, (parent), (rc), &(a2)); n_; })
+static bool STUB_is_same_affinity(execution_data *ed) { return g_same_aff; }
+static slot_id STUB_execution_slot(execution_data *ed) { return g_slot; }
+static task_group_context *STUB_context(execution_data *ed) { return ed->context; }
+static void Partition_note_affinity(Partition *p, slot_id s) { g_notes++; g_note_slot = s; OBLIGATION(p == &T.my_partition, "C05.sfor.execute: the affinity note goes to this task's own partition object"); }
+static bool Partition_check_being_stolen(Partition *p, struct start_for *t, execution_data *ed) { g_stolen_checks++; OBLIGATION(p == &T.my_partition && t == &T && g_pexec == 0, "C05.sfor.execute: the stolen check is made on this task, before its range is processed"); return nondet_bool(); }
+static void Partition_execute(Partition *p, struct start_for *t, Range *r, execution_data *ed) {
+    OBLIGATION(t == &T && r == &T.my_range && p == &T.my_partition, "C05.sfor.execute: the partitioner works on this task and this task's own range");
+    g_pexec++;
+    if (nondet_bool()) T.my_parent = &P2;            /* offer_work() may hang this task under a new tree node */
+    g_parent_at_exit = T.my_parent;
+}
+static void STUB_task_dtor(struct start_for *t) { g_dtor++; g_pool0 = t->my_allocator.pool; t->my_parent = NULL; t->my_allocator.pool = NULL; }   /* the task object is dead: its fields are poisoned */
+static void STUB_fold_tree(node *parent, const execution_data *ed) { g_folds++; OBLIGATION(parent == g_parent_at_exit && parent != NULL, "C05.sfor.finalize: completion is reported to the node this task hangs under NOW (read before the task is destroyed)"); OBLIGATION(g_dtor == 1, "C05.sfor.finalize: the task is destroyed before its completion is reported"); }
+static void STUB_deallocate(small_object_allocator *a, struct start_for *t, const execution_data *ed) { g_deallocs++; OBLIGATION(t == &T && a->pool == g_pool0 && g_dtor == 1, "C05.sfor.finalize: the task is freed once, after its destruction, with the allocator it was created from"); }
+static void Partition_spawn_task(Partition *p, struct start_for *t, task_group_context *c) {
+    g_spawns++;
+    OBLIGATION(t == &g_new_task && p == &g_new_task.my_partition && c == &g_ctx, "C05.sfor.offer_work: the task spawned is the new right child, through its own partition object, in the context of the running task");
+    OBLIGATION(g_node_allocs == 1 && t->my_parent == &g_new_node && T.my_parent == &g_new_node && g_new_node.m_ref_count == 2, "C05.sfor.offer_work: when the right child becomes visible to thieves both children already hang under the new tree node, whose count is 2");
+}
+struct start_for *g_ew_task; void *g_ew_c1, *g_ew_c2, *g_ew_w;
+#define EXECUTE_AND_WAIT(t, c1, w, c2) do { g_waits++; g_ew_task = &(t); g_ew_c1 = &(c1); g_ew_w = &(w); g_ew_c2 = &(c2); \
+    OBLIGATION(g_ew_task == &g_new_task && g_ew_task->my_range.id == g_r.id && g_rcopies == 1 && g_rcopy_src == &g_r && g_bcopies == 1 && g_bcopy_src == &g_body && g_ew_task->my_body.id == g_body.id, "C05.sfor.run: the root task covers the caller's whole range with a copy of the caller's body"); \
+    OBLIGATION(g_ew_task->my_parent != NULL && g_ew_task->my_parent->my_parent == NULL && g_ew_task->my_parent->m_ref_count == 1 && g_ew_w == (void *)&g_ew_task->my_parent->m_wait && g_ew_task->my_parent->m_wait.refs == 1, \
+               "C05.sfor.run: the root task hangs under a wait node (no parent, count 1) and the caller waits on that node's wait_context (released once by fold_tree when the count reaches 0)"); \
+    OBLIGATION(g_ew_c1 == (void *)&g_ctx && g_ew_c2 == (void *)&g_ctx, "C05.sfor.run: the loop runs and is waited for in the caller's context"); } while (0)
+void *g_r4_range, *g_r4_body, *g_r4_part; task_group_context *g_r4_ctx; int g_r4_traits;
+#define RUN4(r, b, p, c) do { g_run4s++; g_r4_range = (void *)&(r); g_r4_body = (void *)&(b); g_r4_part = &(p); g_r4_ctx = &(c); g_r4_traits = (c).traits; } while (0)
+const Body *g_inv_body; Range *g_inv_range;
+#define BODY_INVOKE(b, r) (g_body_calls++, g_inv_body = &(b), g_inv_range = &(*(r)))
+#include "start_for.inc"
+static void reset_ghost(void) { g_rcopies = g_rsplits = g_bcopies = g_psplits = g_pctors = g_aligns = g_notes = g_stolen_checks = g_pexec = g_dtor = g_folds = g_deallocs = g_spawns = g_waits = g_run4s = g_task_allocs = g_node_allocs = g_body_calls = 0; }
+static void mk_task(void) {    /* an arbitrary task that is about to run: the root, a left child, or a right child created by offer_work_impl */
+    reset_ghost(); T.my_parent = &P; T.my_allocator.pool = nondet_ptr(); T.my_range.id = nondet_size_t(); T.my_body.id = nondet_int();
+    P.my_parent = nondet_bool() ? &P2 : NULL; P.m_ref_count = nondet_bool() ? 1 : 2; P2.my_parent = NULL; P2.m_ref_count = 1; g_parent_at_exit = &P;
+    g_same_aff = nondet_bool(); g_slot = nondet_ushort();
+}
+void h_sfor_execute(void) {
+    mk_task(); execution_data ed; ed.context = &g_ctx;
+    task *r = start_for_execute(&T, &ed);
+    OBLIGATION(g_pexec == 1 && g_stolen_checks == 1, "C05.sfor.execute: the task's range is handed to the partitioner exactly once");
+    OBLIGATION(g_folds == 1 && g_dtor == 1 && g_deallocs == 1 && r == NULL, "C05.sfor.execute: the finished task reports completion to its parent exactly once (one fold_tree per task: the wait is released exactly once, by the last one) and is destroyed and freed once");
+    VACUITY_END();
+}
+void h_sfor_cancel(void) {
+    mk_task(); execution_data ed; ed.context = &g_ctx;
+    task *r = start_for_cancel(&T, &ed);
+    OBLIGATION(g_pexec == 0 && g_body_calls == 0, "C05.sfor.cancel: a cancelled task processes nothing");
+    OBLIGATION(g_folds == 1 && g_dtor == 1 && g_deallocs == 1 && r == NULL, "C05.sfor.cancel: a cancelled task still reports completion to its parent exactly once (the count must reach 0 for the wait to be released)");
+    VACUITY_END();
+}
+static void offer_post(bool demand, Range *r) {
+    struct start_for *R = &g_new_task; node *NN = &g_new_node;
+    OBLIGATION(g_task_allocs == 1 && g_node_allocs == 1 && g_spawns == 1, "C05.sfor.offer_work: a split creates exactly one right sibling and one tree node, and exactly the right sibling is spawned");
+    OBLIGATION(NN->my_parent == &P && NN->m_ref_count == 2 && !NN->m_child_stolen, "C05.sfor.offer_work: the new tree node takes this task's place under the old parent, counts two children and starts with the stolen flag clear");
+    OBLIGATION(T.my_parent == NN && R->my_parent == NN, "C05.sfor.offer_work: both children hang under the new tree node");
+    OBLIGATION(g_bcopies == 1 && g_bcopy_dst == &R->my_body && g_bcopy_src == &T.my_body, "C05.sfor.offer_work: the right sibling works with a copy of this task's body");
+    if (!demand) OBLIGATION(g_rsplits == 1 && g_rsplit_dst == &R->my_range && g_rsplit_src == &T.my_range && g_rcopies == 0 && g_psplits == 1 && g_psplit_dst == &R->my_partition && g_psplit_src == &T.my_partition,
+                            "C05.sfor.offer_work: the right sibling's range is the part split off this task's own range (each element stays in exactly one of the two); the partition object is split alongside");
+    else OBLIGATION(g_rcopies == 1 && g_rcopy_dst == &R->my_range && g_rcopy_src == r && g_rsplits == 0 && g_psplits == 1 && g_psplit_dst == &R->my_partition && g_psplit_src == &T.my_partition && g_psplit_obj == (void *)&g_split_tag,
+                    "C05.sfor.offer_work: the right sibling gets exactly the range handed over by the range pool, and a partition object split off this task's");
+    OBLIGATION(P.m_ref_count == 2 && P.my_parent == NULL, "C05.sfor.offer_work: the old parent is not touched (the new node inherits this task's reference)");
+}
+static void mk_splitter(void) { reset_ghost(); T.my_parent = &P; T.my_range.id = nondet_size_t(); T.my_body.id = nondet_int(); P.m_ref_count = 2; P.my_parent = NULL; }
+void h_sfor_offer_split(void) {
+    mk_splitter(); execution_data ed; ed.context = &g_ctx; split_type so;
+    start_for_offer_work_impl_split(&T, &ed, &T, &so);
+    offer_post(false, NULL);
+    OBLIGATION(g_rsplit_obj == (void *)&so && g_psplit_obj == (void *)&so && g_aligns == 0, "C05.sfor.offer_work: range and partition are split by the same split object");
+    VACUITY_END();
+}
+void h_sfor_offer_demand(void) {
+    mk_splitter(); execution_data ed; ed.context = &g_ctx; Range r; r.id = nondet_size_t(); unsigned char d = nondet_uchar();
+    start_for_offer_work_impl_demand(&T, &ed, &T, &r, d);
+    offer_post(true, &r);
+    OBLIGATION(g_new_task.my_range.id == r.id, "C05.sfor.offer_work: the handed-over range is copied unchanged");
+    OBLIGATION(g_aligns == 1 && g_align_p == &g_new_task.my_partition && g_align_d == d, "C05.sfor.offer_work: the right sibling's depth budget is aligned by the depth of the piece it received");
+    VACUITY_END();
+}
+void h_sfor_run4(void) {
+    reset_ghost(); g_r.id = nondet_size_t(); g_body.id = nondet_int();
+    start_for_run4(&g_r, &g_body, &g_partitioner, &g_ctx);
+    OBLIGATION(g_r.id == 0 ? (g_waits == 0 && g_task_allocs == 0 && g_body_calls == 0) : (g_waits == 1 && g_task_allocs == 1), "C05.sfor.run: an empty range starts nothing (the body is not applied at all); otherwise exactly one root task is run and waited for");
+    VACUITY_END();
+}
+void h_sfor_run3(void) {
+    reset_ghost(); g_r.id = nondet_size_t();
+    start_for_run3(&g_r, &g_body, &g_partitioner);
+    OBLIGATION(g_run4s == 1 && g_r4_range == (void *)&g_r && g_r4_body == (void *)&g_body && g_r4_part == (void *)&g_partitioner && g_r4_ctx != NULL && g_r4_traits == PARALLEL_FOR,
+               "C05.sfor.run: without a context the same range, body and partitioner are run once in a fresh bound context");
+    VACUITY_END();
+}
+void h_sfor_run_body(void) {
+    mk_task(); Range r; r.id = nondet_size_t();
+    start_for_run_body(&T, &r);
+    OBLIGATION(g_body_calls == 1 && g_inv_body == &T.my_body && g_inv_range == &r, "C05.sfor.run_body: the task's own body copy is applied once to exactly the subrange handed in");
+    VACUITY_END();
+}
+#endif /* SFOR */
 
 #ifdef ND
 /* ------------------------------------------------------------------ 2-D / 3-D dimension choice */
